@@ -13,6 +13,9 @@ import os
 import re
 import sys
 
+sys.path.insert(0, os.path.dirname(os.path.abspath(__file__)))
+import rustcanon  # noqa: E402
+
 
 class ExtractionError(Exception):
     def __init__(self, table, file, reason):
@@ -20,8 +23,13 @@ class ExtractionError(Exception):
         self.table, self.file, self.reason = table, file, reason
 
 
+CHAR_LITERAL_AT = re.compile(r"'(?:\\u\{[0-9a-fA-F]+\}|\\x[0-9a-fA-F]{2}|\\.|[^'\\\n])'")
+RAW_STRING_AT = re.compile(r'b?r(#*)"')
+
+
 def strip_comments(src):
-    """remove // and /* */ comments and keep string literals intact"""
+    """remove // and /* */ comments and keep string and character literals intact. A raw string (r"..", r#".."#, br"..") is rewritten
+    as an ordinary string literal with the same content (`r"/\\"` becomes `"/\\\\"`), so that the scanners below meet one kind of string only"""
     out = []
     i, n = 0, len(src)
     while i < n:
@@ -30,18 +38,31 @@ def strip_comments(src):
             j = src.find("\n", i)
             i = n if j < 0 else j
         elif src.startswith("/*", i):
-            j = src.find("*/", i + 2)
-            i = n if j < 0 else j + 2
+            depth, j = 1, i + 2                     # block comments nest
+            while j < n and depth:
+                if src.startswith("/*", j):
+                    depth, j = depth + 1, j + 2
+                elif src.startswith("*/", j):
+                    depth, j = depth - 1, j + 2
+                else:
+                    j += 1
+            i = j
         elif c == '"':
             j = i + 1
             while j < n and src[j] != '"':
                 j += 2 if src[j] == "\\" else 1
             out.append(src[i:j + 1])
             i = j + 1
-        elif c == "'" and i + 2 < n and (src[i + 2] == "'" or (src[i + 1] == "\\" and src.find("'", i + 2) - i <= 5)):
-            j = src.find("'", i + 2 if src[i + 1] == "\\" else i + 1)
-            out.append(src[i:j + 1])
-            i = j + 1
+        elif c in "br" and RAW_STRING_AT.match(src, i) and not (i > 0 and (src[i - 1].isalnum() or src[i - 1] == "_")):
+            m = RAW_STRING_AT.match(src, i)
+            end = src.find('"' + m.group(1), m.end())
+            end = n if end < 0 else end
+            out.append('"' + src[m.end():end].replace("\\", "\\\\").replace('"', '\\"') + '"')
+            i = end + 1 + len(m.group(1))
+        elif c == "'" and CHAR_LITERAL_AT.match(src, i):
+            j = CHAR_LITERAL_AT.match(src, i).end()
+            out.append(src[i:j])
+            i = j
         else:
             out.append(c)
             i += 1
@@ -55,7 +76,21 @@ def read(repo, rel, table):
     return strip_comments(open(p, encoding="utf-8").read())
 
 
-CHAR_LITERAL_AT = re.compile(r"'(?:\\u\{[0-9a-fA-F]+\}|\\x[0-9a-fA-F]{2}|\\.|[^'\\\n])'")
+def code_chars(src, start=0, end=None):
+    """(index, character) of every character of src[start:end] that is code, i.e. outside string and character literals"""
+    i, n = start, len(src) if end is None else end
+    while i < n:
+        ch = src[i]
+        if ch == '"':
+            j = i + 1
+            while j < n and src[j] != '"':
+                j += 2 if src[j] == "\\" else 1
+            i = j + 1
+        elif ch == "'" and CHAR_LITERAL_AT.match(src, i):
+            i = CHAR_LITERAL_AT.match(src, i).end()
+        else:
+            yield i, ch
+            i += 1
 
 
 def block_after(src, start_idx, open_ch="{", close_ch="}"):
@@ -86,14 +121,102 @@ def block_after(src, start_idx, open_ch="{", close_ch="}"):
     return None
 
 
-def fn_body(src, name, table, rel):
-    m = re.search(r"\bfn\s+" + re.escape(name) + r"\b", src)
+def _fn_items(src, name):
+    """every `fn <name>` of src that has a body, as (brace depth of the item, parameter text, body); a trait method declaration
+    `fn name(..);` has no body and is not an item"""
+    depth_at, depth = {}, 0
+    for i, ch in code_chars(src):
+        depth_at[i] = depth
+        if ch == "{":
+            depth += 1
+        elif ch == "}":
+            depth -= 1
+    out = []
+    for m in re.finditer(r"\bfn\s+" + re.escape(name) + r"\b", src):
+        if m.start() not in depth_at:
+            continue                                  # inside a string literal
+        params = block_after(src, m.end(), "(", ")")
+        if params is None:
+            continue
+        k = src.find("(", m.end()) + len(params) + 2
+        # what follows the parameter list: `-> T`, `where ..`, then `{` (a body) or `;` (a declaration)
+        nest, opener = 0, None
+        for i, ch in code_chars(src, k):
+            if ch in "([":
+                nest += 1
+            elif ch in ")]":
+                nest -= 1
+            elif nest == 0 and ch in "{;":
+                opener = i if ch == "{" else None
+                break
+        if opener is None:
+            continue
+        body = block_after(src, opener)
+        if body is not None:
+            out.append((depth_at[m.start()], params, body))
+    return out
+
+
+def fn_item(src, name, table, rel, impl_pattern=None):
+    """(parameter text, body) of `fn <name>`. A function name need not be unique in its file (`new`, `create`, `apply`, `from`,
+    `kind`, ..): with `impl_pattern` (a regular expression for what stands between `impl<..>` and the `{`, e.g. `Ast`,
+    `Element\\s+for\\s+Primitive`) the function is looked up among the methods of that impl block, whichever comes first in the file;
+    without it a name that occurs several times means the free function (brace depth 0)"""
+    if impl_pattern is not None:
+        rx = re.compile(r"\bimpl\b\s*(?:<[^{;]*?>\s*)?" + impl_pattern + r"\s*(?:<[^{;]*?>\s*)?(?:\bwhere\b[^{;]*)?\{")
+        blocks = [block_after(src, im.end() - 1) for im in rx.finditer(src)]
+        if not blocks:
+            raise ExtractionError(table, rel, f"`impl {impl_pattern}` not found (looking for fn {name})")
+        for blk in blocks:
+            items = [it for it in _fn_items(blk or "", name) if it[0] == 0]
+            if items:
+                return items[0][1], items[0][2]
+        raise ExtractionError(table, rel, f"fn {name} not found in `impl {impl_pattern}`")
+    items = _fn_items(src, name)
+    if not items:
+        raise ExtractionError(table, rel, f"fn {name} not found" if not re.search(r"\bfn\s+" + re.escape(name) + r"\b", src)
+                              else f"body of fn {name} not found")
+    if len(items) > 1:
+        free = [it for it in items if it[0] == 0]
+        if len(free) != 1:
+            raise ExtractionError(table, rel, f"fn {name} is defined {len(items)} times in this file and it is not said which impl is meant")
+        items = free
+    return items[0][1], items[0][2]
+
+
+def fn_body_in_impl(src, impl_pattern, name, table, rel):
+    return fn_item(src, name, table, rel, impl_pattern)[1]
+
+
+def fn_body(src, name, table, rel, impl_pattern=None):
+    return fn_item(src, name, table, rel, impl_pattern)[1]
+
+
+def fn_params(src, name, table, rel, impl_pattern=None):
+    """names bound by the parameter list of `fn <name>`, in order (`self` is not a name)"""
+    return rustcanon.param_names(fn_item(src, name, table, rel, impl_pattern)[0])
+
+
+def rename_locals(body, mapping, table, rel, where):
+    """body with the locals `old` of mapping {old: new} called `new`: the shape tests of an extractor are written with the names the
+    code had when they were written; the names in use are read from the code (by what they are bound to) and mapped back first"""
+    blank = re.sub(r'"(?:[^"\\]|\\.)*"', '""', body)
+    for old, new in mapping.items():
+        if old != new and re.search(r"(?<![\w.:])" + re.escape(new) + r"\b(?!\s*::)", blank):
+            raise ExtractionError(table, rel, f"{where}: cannot give `{old}` its canonical name `{new}` (that name is in use)")
+    for old, new in mapping.items():
+        if old != new:
+            body = re.sub(r"(?<![\w.:])" + re.escape(old) + r"\b(?!\s*::)", "\x00" + new, body)
+    return body.replace("\x00", "")
+
+
+def local_bound_to(body, rhs_regex, what, table, rel, mutable=None):
+    """name of the local that `let [mut] <name> [: T] = <rhs_regex>` binds in body (names of locals are read, never assumed)"""
+    mut = r"(?:mut\s+)?" if mutable is None else (r"mut\s+" if mutable else "")
+    m = re.search(r"\blet\s+" + mut + r"(\w+)\s*(?::[^=;]+)?=\s*" + rhs_regex, body)
     if not m:
-        raise ExtractionError(table, rel, f"fn {name} not found")
-    b = block_after(src, m.end())
-    if b is None:
-        raise ExtractionError(table, rel, f"body of fn {name} not found")
-    return b
+        raise ExtractionError(table, rel, f"{what} not found")
+    return m.group(1)
 
 
 WIDTH = {"i8": 1, "u8": 1, "i16": 2, "u16": 2, "i32": 4, "u32": 4, "i64": 8, "u64": 8}
@@ -104,8 +227,29 @@ def gen_varint_arms(repo):
     rel = "slice-codec/src/encoding.rs"
     src = read(repo, rel, T)
 
+    def enc_body(fn):
+        """body of encode_var[u]int with its locals under the names the tests below use: the integer as `value` (the parameter, or the
+        local bound to `<parameter>.into()`), `let <s> = value << n` as `shifted_value`, the scrutinee of the range match as `required_bits`"""
+        body = fn_body(src, fn, T, rel, r"Encoder")
+        params = fn_params(src, fn, T, rel, r"Encoder")
+        if len(params) != 1:
+            raise ExtractionError(T, rel, f"{fn}: one parameter (the integer) expected, found {params}")
+        vm = re.search(r"\blet\s+(\w+)\s*(?::\s*\w+\s*)?=\s*" + re.escape(params[0]) + r"\.into\(\)\s*;", body)
+        if vm:                                      # from here on the integer is the converted local (which may shadow the parameter)
+            body = rename_locals(body[vm.end():], {vm.group(1): "value"}, T, rel, fn)
+        else:
+            body = rename_locals(body, {params[0]: "value"}, T, rel, fn)
+        mapping = {}
+        sm = re.search(r"\blet\s+(\w+)\s*(?::\s*\w+\s*)?=\s*value\s*<<\s*\d+\s*;", body)
+        if sm:
+            mapping[sm.group(1)] = "shifted_value"
+        rm = re.search(r"\bmatch\s+(\w+)\s*\{\s*\d+\s*\.\.=", body)
+        if rm:
+            mapping[rm.group(1)] = "required_bits"
+        return rename_locals(body, mapping, T, rel, fn)
+
     def enc_arms(fn, native):
-        body = fn_body(src, fn, T, rel)
+        body = enc_body(fn)
         m = re.search(r"match\s+required_bits\s*", body)
         if not m:
             raise ExtractionError(T, rel, f"{fn}: `match required_bits` not found")
@@ -136,10 +280,10 @@ def gen_varint_arms(repo):
         return arms, shift
 
     # required_bits computation must have the modelled shape
-    bu = fn_body(src, "encode_varuint", T, rel)
+    bu = enc_body("encode_varuint")
     if not re.search(r"required_bits\s*=\s*u64::BITS\s*-\s*value\.leading_zeros\(\)", bu):
         raise ExtractionError(T, rel, "encode_varuint: required_bits is not `u64::BITS - value.leading_zeros()`")
-    bs = fn_body(src, "encode_varint", T, rel)
+    bs = enc_body("encode_varint")
     # modelled: required_bits = i64::BITS - (leading_ones if negative else leading_zeros) + 1. The selection may be written as a
     # `match value.is_negative() { false => …, true => … }` (arms in either order) or as an `if`/`else`, directly or through a local.
     lz, lo = r"value\.leading_zeros\(\)", r"value\.leading_ones\(\)"
@@ -163,7 +307,11 @@ def gen_varint_arms(repo):
     dsrc = read(repo, rel2, T)
 
     def dec_arms(fn, shift_re):
-        body = fn_body(dsrc, fn, T, rel2)
+        body = fn_body(dsrc, fn, T, rel2, r"Decoder")
+        # the decoded integer, under whatever name: `let mut <value> = match self.peek_byte()? & mask { .. };`
+        dm = re.search(r"\blet\s+mut\s+(\w+)\s*(?::[^=;]+)?=\s*match\s+self\.peek_byte\(\)\?", body)
+        if dm:
+            body = rename_locals(body, {dm.group(1): "value"}, T, rel2, fn)
         m = re.search(r"match\s+self\.peek_byte\(\)\?\s*&\s*(0b[01]+|\d+)\s*", body)
         if not m:
             raise ExtractionError(T, rel2, f"{fn}: `match self.peek_byte()? & mask` not found")
@@ -223,14 +371,40 @@ end Slicec.Gen
 
 
 def strip_test_modules(src):
-    """drop `#[cfg(test)] mod x { ... }` blocks"""
+    """drop everything that is compiled for tests only: the item (or statement) behind a `#[cfg(test)]` attribute -- `mod x { .. }`,
+    `mod x;`, `fn`, `impl`, `struct`, `enum`, `use`, `const`, `static`, `type`, a block -- together with its other attributes; a file
+    that starts with `#![cfg(test)]` is test code as a whole"""
+    if re.search(r"#!\[cfg\(\s*test\s*\)\]", src):
+        return ""
+    attr = re.compile(r"\s*#\[[^\]]*\]")
     out, i = [], 0
-    for m in re.finditer(r"#\[cfg\(test\)\]\s*(?:#\[[^\]]*\]\s*)*mod\s+\w+\s*\{", src):
+    for m in re.finditer(r"#\[cfg\(\s*test\s*\)\]", src):
         if m.start() < i:
             continue
-        out.append(src[i:m.start()])
-        blk = block_after(src, m.end() - 1)
-        i = m.end() + (len(blk) if blk is not None else 0) + 1
+        start = m.start()
+        while True:                                   # attributes in front of it belong to the same item
+            pm = re.search(r"#\[[^\]]*\]\s*$", src[i:start])
+            if not pm:
+                break
+            start = i + pm.start()
+        k = m.end()
+        while attr.match(src, k):                     # and so do the ones behind it
+            k = attr.match(src, k).end()
+        depth, end = 0, len(src)
+        for j, ch in code_chars(src, k):              # the item ends at its `;` or at the end of its `{ .. }`
+            if ch in "([":
+                depth += 1
+            elif ch in ")]":
+                depth -= 1
+            elif depth == 0 and ch == ";":
+                end = j + 1
+                break
+            elif depth == 0 and ch == "{":
+                blk = block_after(src, j)
+                end = j + len(blk) + 2 if blk is not None else len(src)
+                break
+        out.append(src[i:start])
+        i = end
     out.append(src[i:])
     return "".join(out)
 
@@ -275,11 +449,39 @@ def gen_codec_panics(repo):
     # the HashMap reservation must be capped by the unread input
     rel = "slice-codec/src/decoding.rs"
     dsrc = read(repo, rel, T)
-    m = re.search(r"impl<K,\s*V>\s*DecodeFrom\s+for\s+HashMap<K,\s*V>", dsrc)
-    if not m:
-        raise ExtractionError(T, rel, "HashMap DecodeFrom impl not found")
-    body = block_after(dsrc, m.end())
+
+    def decode_from_of(type_rx, what, container_ctor, container_name):
+        """body of `<what>::decode_from` with its locals under the names the tests below are written with: the decoder parameter as
+        `decoder`, the local bound to `decoder.decode_varuint()?` as `length`, the container that is filled as `container_name`"""
+        m = re.search(r"\bimpl\b\s*(?:<[^{;]*?>\s*)?DecodeFrom\s+for\s+" + type_rx + r"\s*(?:\bwhere\b[^{;]*)?\{", dsrc)
+        if not m:
+            raise ExtractionError(T, rel, f"{what} DecodeFrom impl not found")
+        params, body = fn_item(block_after(dsrc, m.end() - 1) or "", "decode_from", T, rel)
+        names = rustcanon.param_names(params)
+        if len(names) != 1:
+            raise ExtractionError(T, rel, f"{what}::decode_from: one parameter (the decoder) expected, found {names}")
+        mapping = {names[0]: "decoder"}
+        lm = re.search(r"\blet\s+(\w+)\s*(?::\s*usize\s*)?=\s*" + re.escape(names[0]) + r"\.decode_varuint\(\)\?\s*;", body)
+        if not lm:
+            raise ExtractionError(T, rel, f"{what}::decode_from: `let <length> = <decoder>.decode_varuint()?;` not found")
+        mapping[lm.group(1)] = "length"
+        cm = re.findall(r"\blet\s+mut\s+(\w+)\s*(?::[^=;]+)?=\s*" + container_ctor + r"::(?:new|with_capacity)\b", body)
+        if len(cm) != 1:
+            raise ExtractionError(T, rel, f"{what}::decode_from: one `let mut <container> = {container_ctor}::new()` expected, found {len(cm)}")
+        if re.search(r"::with_capacity\b", body):
+            raise ExtractionError(T, rel, f"{what}::decode_from allocates through with_capacity: not understood")
+        mapping[cm[0]] = container_name
+        for old, new in mapping.items():
+            if old != new and re.search(r"(?<![\w.:])" + new + r"\b(?!\s*::)", re.sub(r'"(?:[^"\\]|\\.)*"', '""', body)):
+                raise ExtractionError(T, rel, f"{what}::decode_from: cannot give `{old}` its canonical name `{new}` (name in use)")
+        for old, new in mapping.items():
+            body = re.sub(r"(?<![\w.])" + re.escape(old) + r"\b(?!\s*::)", new, body)
+        return body
+
+    body = decode_from_of(r"HashMap\s*<\s*K\s*,\s*V\s*>", "HashMap", "HashMap", "map")
     r = re.search(r"map\.try_reserve\(([^;]*)\)\?;", body)
+    if not r and re.search(r"\.try_reserve", body):
+        raise ExtractionError(T, rel, "HashMap::decode_from reserves, but not on the map it fills: not understood")
     if not r:
         reserve = "announced * 0"  # no reservation at all
     else:
@@ -293,11 +495,10 @@ def gen_codec_panics(repo):
     def q(x):
         return '"' + x.replace("\\", "\\\\").replace('"', '\\"') + '"'
     # sequences: the pre-allocation must be capped by the unread input as well
-    m = re.search(r"impl<T>\s*DecodeFrom\s+for\s+Vec<T>", dsrc)
-    if not m:
-        raise ExtractionError(T, rel, "Vec DecodeFrom impl not found")
-    vbody = block_after(dsrc, dsrc.index("{", dsrc.index("fn decode_from", m.end())))
+    vbody = decode_from_of(r"Vec\s*<\s*T\s*>", "Vec", "Vec", "vector")
     r = re.search(r"vector\.try_reserve(?:_exact)?\(([^;]*)\)\?;", vbody)
+    if not r and re.search(r"\.try_reserve", vbody):
+        raise ExtractionError(T, rel, "Vec::decode_from reserves, but not on the vector it fills: not understood")
     if not r:
         vreserve = "announced * 0"
     else:
@@ -309,10 +510,7 @@ def gen_codec_panics(repo):
         else:
             raise ExtractionError(T, rel, f"Vec reservation argument `{arg}` not understood")
     # strings: are the announced bytes read (which fails when they are not there) before memory for them is allocated?
-    m = re.search(r"impl\s+DecodeFrom\s+for\s+String", dsrc)
-    if not m:
-        raise ExtractionError(T, rel, "String DecodeFrom impl not found")
-    sbody = block_after(dsrc, dsrc.index("{", dsrc.index("fn decode_from", m.end())))
+    sbody = decode_from_of(r"String", "String", "Vec", "vector")
     rd = re.search(r"decoder\.read_byte_slice_exact\(length\)\?", sbody)
     rs = re.search(r"vector\.try_reserve(?:_exact)?\(([^;]*)\)\?;", sbody)
     if rs is None:
@@ -346,10 +544,11 @@ def gen_keywords(repo):
     T = "Keywords"
     rel = "slicec/src/parsers/slice/lexer.rs"
     src = read(repo, rel, T)
-    body = fn_body(src, "check_if_keyword", T, rel)
-    m = re.search(r"match\s+identifier\s*", body)
+    body = fn_body(src, "check_if_keyword", T, rel, r"Lexer")
+    param = (fn_params(src, "check_if_keyword", T, rel, r"Lexer") or ["identifier"])[0]
+    m = re.search(r"match\s+" + re.escape(param) + r"\s*(?=\{)", body)
     if not m:
-        raise ExtractionError(T, rel, "`match identifier` not found in check_if_keyword")
+        raise ExtractionError(T, rel, f"`match {param}` (the parameter) not found in check_if_keyword")
     arms = block_after(body, m.end())
     kws = re.findall(r'"([A-Za-z0-9_]+)"\s*=>\s*TokenKind::(\w+)', arms)
     if len(kws) < 10:
@@ -540,20 +739,33 @@ def gen_emit_format(repo):
     T = "EmitFormat"
     rel = "slicec/src/diagnostic_emitter.rs"
     src = read(repo, rel, T)
-    jbody = fn_body(src, "emit_diagnostics_in_json", T, rel)
+    EM = r"DiagnosticEmitter"
+    jbody = fn_body(src, "emit_diagnostics_in_json", T, rel, EM)
     m = re.search(r'serialize_struct\(\s*"Diagnostic"\s*,\s*(\d+)\s*\)', jbody)
     if not m:
         raise ExtractionError(T, rel, "serialize_struct(\"Diagnostic\", n) not found")
     keys = re.findall(r'\.serialize_field\(\s*"([^"\\]*)"', jbody)
     if len(keys) != int(m.group(1)) or not keys:
         raise ExtractionError(T, rel, f"{len(keys)} serialize_field calls for a struct announced with {m.group(1)} fields")
-    if not re.search(r"state\.end\(\)\?;\s*writeln!\(\s*self\.output\s*\)\?;", jbody):
+    # the SerializeStruct local, under whatever name: `let mut <st> = <serializer>.serialize_struct("Diagnostic", n)?;`
+    st = re.escape(local_bound_to(jbody, r'\w+\.serialize_struct\(\s*"Diagnostic"', "the local bound to serialize_struct(\"Diagnostic\", n)", T, rel))
+    if len(re.findall(st + r'\.serialize_field\(', jbody)) != len(keys):
+        raise ExtractionError(T, rel, "serialize_field is called on something else than the struct serializer of the diagnostic")
+    if not re.search(st + r"\.end\(\)\?;\s*writeln!\(\s*self\.output\s*\)\?;", jbody) or len(re.findall(r"writeln!\(", jbody)) != 1:
         raise ExtractionError(T, rel, "the object is no longer followed by exactly one writeln!(self.output)")
     sev = dict(re.findall(r'DiagnosticLevel::(\w+)\s*=>\s*"([^"\\]*)"', jbody))
     if set(sev) != {"Error", "Warning"} or not re.search(r"DiagnosticLevel::Allowed\s*=>\s*continue", jbody):
         raise ExtractionError(T, rel, "severity match of emit_diagnostics_in_json not understood")
-    hbody = fn_body(src, "emit_diagnostics_in_human", T, rel)
-    pre = dict(re.findall(r'DiagnosticLevel::(\w+)\s*=>\s*console::style\(format!\("([^"\\\[]*) \[\{code\}\]"\)\)', hbody))
+    hbody = fn_body(src, "emit_diagnostics_in_human", T, rel, EM)
+    # the prefix is `<word> [<code of the diagnostic>]`: the code may be captured inline from a local (`[{code}]` with
+    # `let code = diagnostic.code();`) or passed as a positional argument (`[{}]", code` / `[{}]", diagnostic.code()`)
+    lv = re.search(r"\bfor\s+(\w+)\s+in\s+\w+\s*\{", hbody)
+    dvar = re.escape(lv.group(1)) if lv else r"diagnostic"
+    code_exprs = set(re.findall(r"\blet\s+(\w+)\s*=\s*" + dvar + r"\.code\(\)\s*;", hbody))
+    pre = {}
+    for lvl, word, inline, arg in re.findall(r'DiagnosticLevel::(\w+)\s*=>\s*console::style\(format!\(\s*"([^"\\\[{}]*) \[\{(\w*)\}\]"\s*(?:,\s*([\w.]+(?:\(\))?)\s*,?)?\s*\)\)', hbody):
+        if (inline and not arg and inline in code_exprs) or (not inline and arg and (arg in code_exprs or re.fullmatch(dvar + r"\.code\(\)", arg))):
+            pre[lvl] = word
     if set(pre) != {"Error", "Warning"} or not re.search(r"DiagnosticLevel::Allowed\s*=>\s*continue", hbody):
         raise ExtractionError(T, rel, "prefix match of emit_diagnostics_in_human not understood")
     def positional(fmt):
@@ -564,7 +776,7 @@ def gen_emit_format(repo):
     note = re.search(r'console::style\("([^"\\]*)"\)\.blue\(\)\.bold\(\)', hbody)
     if fmts != ["{}: {}", "{}: {}"] or not note:
         raise ExtractionError(T, rel, f"format strings of emit_diagnostics_in_human changed: {fmts}")
-    sbody = fn_body(src, "emit_snippet", T, rel)
+    sbody = fn_body(src, "emit_snippet", T, rel, EM)
     sf = [positional(f) for f in re.findall(r'writeln!\(\s*self\.output\s*,\s*"([^"]*)"', sbody)]
     arrow = re.search(r'console::style\("([^"\\]*)"\)', sbody)
     if sf != [" {} {}:{}:{}", "{}"] or not arrow:
@@ -573,11 +785,13 @@ def gen_emit_format(repo):
         raise ExtractionError(T, rel, "serde attributes are not modelled")
 
     def struct_fields(rel2, name):
-        raw = read(repo, rel2, T)
+        raw = read(repo, rel2, T)          # comments (and with them doc comments) are gone; raw strings are ordinary strings
         if "#[serde(" in raw:
             raise ExtractionError(T, rel2, "serde attributes are not modelled")
-        mm = re.search(r"#\[derive\(([^)]*)\)\]\s*pub struct " + name + r"\s*\{", raw)
-        if not mm or "Serialize" not in mm.group(1):
+        # the attributes in front of the struct, in any order and number (`#[derive(..)]`, `#[allow(..)]`, ..)
+        mm = re.search(r"((?:#\[[^\]]*\]\s*)+)pub\s+struct\s+" + name + r"\s*\{", raw)
+        dm = mm and re.search(r"#\[derive\(([^)]*)\)\]", mm.group(1))
+        if not dm or "Serialize" not in dm.group(1):
             raise ExtractionError(T, rel2, f"`#[derive(Serialize ..)] pub struct {name}` not found")
         body = block_after(raw, mm.end() - 1)
         fields = re.findall(r"(?:pub(?:\([^)]*\))?\s+)?(\w+)\s*:\s*[^,]+,?", body or "")
@@ -595,36 +809,44 @@ def gen_emit_format(repo):
     ptr = re.search(r'style\(r"([^"]*)"\.to_owned\(\)\)', raw_sf)
     if not tab or not ptr:
         raise ExtractionError(T, rel_sf, "EXPANDED_TAB or the start==end pointer literal not found")
-    head = raw_sf[:raw_sf.find("impl SliceFile")]
     if "#[serde(" in raw_sf:
         raise ExtractionError(T, rel_sf, "serde attributes are not modelled")
-
-    def struct_fields_raw(text, name):
-        mm = re.search(r"#\[derive\(([^)]*)\)\]\s*pub struct " + name + r"\s*\{([^}]*)\}", text)
-        if not mm or "Serialize" not in mm.group(1):
-            raise ExtractionError(T, rel_sf, f"`#[derive(Serialize ..)] pub struct {name}` not found")
-        body = re.sub(r"//[^\n]*", "", mm.group(2))
-        return re.findall(r"pub\s+(\w+)\s*:", body)
-
-    loc = struct_fields_raw(head, "Location")
-    span = struct_fields_raw(head, "Span")
+    loc = struct_fields(rel_sf, "Location")
+    span = struct_fields(rel_sf, "Span")
     notef = struct_fields("slicec/src/diagnostics/mod.rs", "Note")
 
     # message texts of the three diagnostic kinds whose message is not their payload and which the emit driver (Drv/C14) constructs:
     # the *wording* belongs to errors.rs / lints.rs, not to the emitter, so it is read from there instead of being assumed
+    def inline_format_args(text):
+        """`format!("a {} b {:?}", x, y)` with plain identifiers as arguments prints like `format!("a {x} b {y:?}")`: write it that way"""
+        def one(mm):
+            fmt, args = mm.group(1), [a.strip() for a in mm.group(2).split(",") if a.strip()]
+            holes = re.findall(r"(?<!\{)\{(:[^{}]*)?\}(?!\})", fmt)
+            if len(holes) != len(args) or not all(re.fullmatch(r"[a-z_]\w*", a) for a in args):
+                return mm.group(0)
+            it = iter(args)
+            return 'format!("' + re.sub(r"(?<!\{)\{(:[^{}]*)?\}(?!\})", lambda h: "{" + next(it) + (h.group(1) or "") + "}", fmt) + '")'
+        return re.sub(r'format!\(\s*"((?:[^"\\]|\\.)*)"\s*,([^()]*?),?\s*\)', one, text)
+
     def template(rel_m, row_re, var, what):
-        msrc_ = read(repo, rel_m, T)
+        msrc_ = inline_format_args(read(repo, rel_m, T))
         mm = re.search(row_re, msrc_, re.S)
         if not mm:
             raise ExtractionError(T, rel_m, f"message of {what} is not a single format!(\"…{{{var}}}…\") literal")
-        t = mm.group(1)
+        t = next(g for g in mm.groups() if g is not None)
         if t.count("{" + var + "}") != 1 or "\\" in t or re.search(r"\{(?!" + var + r"\})|(?<!\{" + var + r")\}", t):
             raise ExtractionError(T, rel_m, f"message template of {what} `{t}` is not `<text>{{{var}}}<text>`")
         pre, post = t.split("{" + var + "}")
         return pre, post
     msg_syntax = template("slicec/src/diagnostics/errors.rs", r'\(\s*"E\d+"\s*,\s*Syntax\s*,\s*format!\(\s*"([^"]*)"\s*,?\s*\)\s*,\s*message\s*,?\s*\)', "message", "Error::Syntax")
     msg_dup = template("slicec/src/diagnostics/lints.rs", r'\(\s*DuplicateFile\s*,\s*format!\(\s*"([^"]*)"\s*,?\s*\)\s*,\s*path\s*,?\s*\)', "path", "Lint::DuplicateFile")
-    msg_dep = template("slicec/src/diagnostics/lints.rs", r'\(\s*Deprecated\s*,\s*if\s+let\s+Some\(\s*reason\s*\)\s*=\s*reason\s*\{[^{}]*(?:\{[^{}]*\}[^{}]*)*\}\s*else\s*\{\s*format!\(\s*"([^"]*)"\s*,?\s*\)\s*\}\s*,\s*identifier\s*,\s*reason\s*,?\s*\)', "identifier", "Lint::Deprecated (no reason)")
+    # the message without a reason: the `else` of `if let Some(..) = reason { .. } else { format!(..) }` or the `None` arm of
+    # `match reason { Some(..) => .., None => format!(..) }` (arms in either order)
+    fm, some_arm = r'format!\(\s*"([^"]*)"\s*,?\s*\)', r'Some\(\s*\w+\s*\)\s*=>\s*format!\([^()]*\)'
+    msg_dep = template("slicec/src/diagnostics/lints.rs",
+                       r'\(\s*Deprecated\s*,\s*(?:if\s+let\s+Some\(\s*\w+\s*\)\s*=\s*&?\s*reason\s*\{[^{}]*(?:\{[^{}]*\}[^{}]*)*\}\s*else\s*\{\s*' + fm + r'\s*\}'
+                       r'|match\s+&?\s*reason\s*\{\s*(?:' + some_arm + r'\s*,\s*None\s*=>\s*' + fm + r'|None\s*=>\s*' + fm + r'\s*,\s*' + some_arm + r')\s*,?\s*\})'
+                       r'\s*,\s*identifier\s*,\s*reason\s*,?\s*\)', "identifier", "Lint::Deprecated (no reason)")
 
     def q(x):
         return '"' + x.replace("\\", "\\\\").replace('"', '\\"') + '"'
@@ -746,7 +968,7 @@ def gen_preproc_tables(repo):
     # (i) the keyword match of the lexer
     rel = "slicec/src/parsers/preprocessor/lexer.rs"
     src = read(repo, rel, T)
-    body = fn_body(src, "lex_next_preprocessor_token", T, rel)
+    body = fn_body(src, "lex_next_preprocessor_token", T, rel, r"Lexer")
     # the directive word: `let <name> = self.read_identifier(); match <name> { "define" => … }` — whatever the local is called
     m = None
     for lm in re.finditer(r"let\s+(\w+)\s*=\s*self\.read_identifier\(\)\s*;\s*", body):
@@ -758,16 +980,39 @@ def gen_preproc_tables(repo):
     arms_src = block_after(body, m.end())
     if arms_src is None:
         raise ExtractionError(T, rel, "arms of the directive `match` not found")
-    kws = [(a, d) for a, _, _, d in re.findall(
-        r'"(\w*)"\s*=>\s*Some\(\s*(Ok|Err)\(\s*\(\s*\w+\s*,\s*(TokenKind|ErrorKind)::(\w+)', arms_src)]
-    fb = re.search(r"\b([a-z_]\w*)\s*=>\s*\{[^{}]*?ErrorKind::(\w+)\s*\{\s*keyword", arms_src, re.S)
+    kw_rows = re.findall(r'"(\w*)"\s*=>\s*Some\(\s*(Ok|Err)\(\s*\(\s*\w+\s*,\s*(TokenKind|ErrorKind)::(\w+)', arms_src)
+    # The arms are string literals, hence disjoint: their order in the `match` means nothing. The table lists them in a canonical
+    # order instead, the order in which `enum TokenKind` / `enum ErrorKind` (tokens.rs) declare what they produce, tokens first.
+    rel_t = "slicec/src/parsers/preprocessor/tokens.rs"
+    tsrc = read(repo, rel_t, T)
+    decl = {}
+    for en in ("TokenKind", "ErrorKind"):
+        em = re.search(r"\benum\s+" + en + r"\b[^{;]*\{", tsrc)
+        eb = block_after(tsrc, em.end() - 1) if em else None
+        if eb is None:
+            raise ExtractionError(T, rel_t, f"enum {en} not found")
+        flat = re.sub(r"\{[^{}]*\}|\([^()]*\)", "", re.sub(r"#\[[^\]]*\]", "", eb))
+        decl[en] = [v.strip() for v in flat.split(",") if v.strip()]
+    for _lit, _oe, en, kind in kw_rows:
+        if kind not in decl[en]:
+            raise ExtractionError(T, rel_t, f"{en}::{kind} is produced by the lexer but not declared")
+    kw_rows.sort(key=lambda r: (r[2] != "TokenKind", decl[r[2]].index(r[3])))
+    kws = [(a, d) for a, _, _, d in kw_rows]
+    # the catch-all arm `<name> => ..` (the last arm, a bare binding) must build `ErrorKind::X { keyword: <name>.. }`; whether it
+    # does so in a block with a local or in one expression does not matter
+    fb = None
+    for cm in re.finditer(r"(?<![:\w])([a-z_]\w*)\s*=>", arms_src):
+        rest = arms_src[cm.end():]
+        km = re.search(r"ErrorKind::(\w+)\s*\{\s*keyword\s*(?::\s*" + re.escape(cm.group(1)) + r"\b" + ("|[,}]" if cm.group(1) == "keyword" else "") + ")", rest)
+        if km and "=>" not in rest:
+            fb = (cm.group(1), km.group(1))
     if not fb:
-        raise ExtractionError(T, rel, "fallback arm `keyword => { … ErrorKind::X { keyword … } }` not found")
+        raise ExtractionError(T, rel, "fallback arm `<name> => … ErrorKind::X { keyword: <name>… }` not found")
     if len(re.findall(r"=>", arms_src)) != len(kws) + 1:
         raise ExtractionError(T, rel, f"{len(re.findall(r'=>', arms_src))} arms in `match identifier`, {len(kws) + 1} understood")
     if len(kws) < 1:
         raise ExtractionError(T, rel, "no directive keyword arms found")
-    fallback = fb.group(2)
+    fallback = fb[1]
 
     # (ii) terminals and productions of the grammar
     rel2 = "slicec/src/parsers/preprocessor/grammar.lalrpop"
@@ -896,11 +1141,13 @@ def gen_panic_sites(repo):
     ledger_path = os.path.join(os.path.dirname(os.path.abspath(__file__)), "ledger", "panic_sites.json")
     ledger = json.load(open(ledger_path, encoding="utf-8")) if os.path.exists(ledger_path) else {}
 
-    # A site that was merely reformatted, re-bound to another local or whose enclosing fn was renamed is still the same site:
-    # an unmapped key inherits the disposition of a ledger entry that disappeared from the same file at the same time when both
-    # have the same panic-capable *expressions* (receiver chain + construct), e.g. `slice_file.module.as_ref().unwrap()`.
-    def cores(key):
-        text = re.sub(r" #\d+$", "", key.split("::", 2)[2])
+    # A site that was merely reformatted, re-bound to another local, whose receiver local or whose enclosing fn was renamed is still
+    # the same site. An unmapped key inherits the disposition of a ledger entry that disappeared from the same file at the same time,
+    # one to one and in source order, when (1) both have the same panic-capable *expression* (receiver chain + construct, e.g.
+    # `slice_file.module.as_ref().unwrap()`), or (2) in the same fn, one expression is the tail of the other at a `.` (a method chain
+    # was split over lines or joined: the key of a continuation line is just `.unwrap()`), or (3) in the same fn, the lines are equal up to
+    # a consistent renaming of lower-case names and the old names occur nowhere in that fn any more (a local was renamed).
+    def site_cores(text):
         out = []
         for m in SLICEC_PANIC_PAT.finditer(text):
             i, depth = m.start(), 0
@@ -919,30 +1166,108 @@ def gen_panic_sites(repo):
             for n, cp in enumerate(re.findall(r"\|(\w+)\|", expr)):          # closure parameters are bound names
                 expr = re.sub(r"\b" + re.escape(cp) + r"\b", "$%d" % n, expr)
             out.append(expr)
-        return tuple(out)
+        return out
+
+    def parts(key):
+        rel_, fn_, text = key.split("::", 2)
+        nm = re.search(r" #(\d+)$", text)
+        return rel_, fn_, (text[:nm.start()] if nm else text), (int(nm.group(1)) if nm else 1)
+
+    def core(key):
+        """the expression of this one site: a line with m sites yields the keys `line`, `line #2`, .. in match order, line after line"""
+        _r, _f, text, n = parts(key)
+        c = site_cores(text)
+        return c[(n - 1) % len(c)] if c else None
+
+    def fn_text(rel_, name):
+        try:
+            return "\n".join(p_ + "{" + b_ + "}" for _d, p_, b_ in _fn_items(strip_test_modules(read(repo, rel_, T)), name))
+        except ExtractionError:
+            return ""
 
     def fn_exists(rel_, name):
-        try:
-            return re.search(r"\bfn\s+" + re.escape(name) + r"\b", read(repo, rel_, T)) is not None
-        except ExtractionError:
-            return False
+        return fn_text(rel_, name) != ""
+
+    def tail_of(a, b):
+        short, long_ = (a, b) if len(a) <= len(b) else (b, a)
+        return short.startswith(".") and long_.endswith(short)
+
+    def renaming(a, b, sigma):
+        """extend sigma so that a, renamed, reads like b (both are key texts, cut at 90 characters); None if impossible"""
+        ta, tb = re.findall(r"[A-Za-z_]\w*|\S", a), re.findall(r"[A-Za-z_]\w*|\S", b)
+        n = min(len(ta), len(tb))
+        if len(a) >= 90 or len(b) >= 90:
+            n -= 1                                    # the last token of a cut line may be incomplete
+        elif len(ta) != len(tb):
+            return None
+        if n < 2:
+            return None
+        sigma = dict(sigma)
+        for x, y in zip(ta[:n], tb[:n]):
+            if x == y and sigma.get(x, x) == x:
+                continue
+            if not (re.fullmatch(r"[a-z_][a-z0-9_]*", x) and re.fullmatch(r"[a-z_][a-z0-9_]*", y)) or sigma.get(x, y) != y:
+                return None
+            if x != y and y in sigma.values() and sigma.get(x) != y:
+                return None
+            sigma[x] = y
+        return sigma
 
     inherited, moved = {}, []
     present = set(keys)
     gone = [k for k in ledger if k not in present]                # in ledger (= source) order
+    fresh_all = [k for k in keys if k not in ledger]
+
+    def same_fn(g, k):
+        """same enclosing fn, or the old fn no longer exists in the file (it was renamed)"""
+        return parts(g)[1] == parts(k)[1] or not fn_exists(parts(g)[0], parts(g)[1])
+
+    def inherit(pairs):
+        for g, k in pairs:
+            inherited[k] = ledger[g]
+            moved.append((g, k))
+            gone.remove(g)
+            fresh_all.remove(k)
+
+    # (1) same expression
     groups = {}
-    for k in keys:
-        if k not in ledger and cores(k):
-            groups.setdefault((k.split("::", 2)[0], cores(k)), []).append(k)
+    for k in fresh_all:
+        if core(k):
+            groups.setdefault((parts(k)[0], core(k)), []).append(k)
     for (rel_, c), fresh in groups.items():
-        cands = [g for g in gone if g.split("::", 2)[0] == rel_ and cores(g) == c]
-        # same enclosing fn, or the old fn no longer exists in the file (it was renamed)
-        ok = [g for g in cands if any(g.split("::", 2)[1] == k.split("::", 2)[1] for k in fresh) or not fn_exists(rel_, g.split("::", 2)[1])]
+        ok = [g for g in gone if parts(g)[0] == rel_ and core(g) == c and any(same_fn(g, k) for k in fresh)]
         if len(ok) == len(fresh):                                  # one-to-one, in source order
-            for g, k in zip(ok, fresh):
-                inherited[k] = ledger[g]
-                moved.append((g, k))
-                gone.remove(g)
+            inherit(list(zip(ok, fresh)))
+    # (2) and (3): what is left, fn by fn
+    for rel_, fn_ in sorted({(parts(k)[0], parts(k)[1]) for k in fresh_all}):
+        fresh = [k for k in fresh_all if parts(k)[:2] == (rel_, fn_)]
+        old = [g for g in gone if parts(g)[0] == rel_ and (parts(g)[1] == fn_ or not fn_exists(rel_, parts(g)[1]))]
+        if not old or len(old) != len(fresh):
+            continue
+        # the ledger need not list the entries of a fn in source order: each new site takes the first old one that fits
+        rest, pairs = list(old), []
+        for k in fresh:
+            g = next((g for g in rest if core(g) and core(k) and (core(g) == core(k) or tail_of(core(g), core(k)))), None)
+            if g is None:
+                break
+            rest.remove(g)
+            pairs.append((g, k))
+        if len(pairs) == len(fresh):
+            inherit(pairs)
+            continue
+        rest, pairs, sigma = list(old), [], {}
+        for k in fresh:
+            hit = next(((g, s_) for g in rest for s_ in [renaming(parts(g)[2], parts(k)[2], sigma)] if s_ is not None), None)
+            if hit is None:
+                break
+            rest.remove(hit[0])
+            pairs.append((hit[0], k))
+            sigma = hit[1]
+        if len(pairs) == len(fresh):
+            renamed = {x for x, y in sigma.items() if x != y}
+            body = fn_text(rel_, fn_)
+            if renamed and not any(re.search(r"(?<![\w.])" + re.escape(x) + r"\b", body) for x in renamed):
+                inherit(pairs)
     ledger = dict(ledger)
     for old_key, new_key in moved:
         ledger[new_key] = inherited[new_key]
@@ -998,6 +1323,20 @@ def gen_driver_shape(repo):
     body = fn_body(src, "main", T, rel)
     if "spawn_plugin_process" not in body:
         raise ExtractionError(T, rel, "fn main no longer calls spawn_plugin_process")
+    # the two locals the guard talks about, under the names the model knows them by: the parsed options (`slice_options`) and the
+    # diagnostics taken out of the compilation state (`diagnostics`), whatever `main` calls them
+    renames = {}
+    om = re.search(r"\blet\s+(\w+)\s*(?::[^=;]+)?=\s*SliceOptions::parse\(\)\s*;", body)
+    if om:
+        renames[om.group(1)] = "slice_options"
+    dm = re.search(r"\blet\s+CompilationState\s*\{[^{}]*?(\bdiagnostics\s*:\s*(mut\s+)?(\w+))[^{}]*\}\s*=", body)
+    if dm:
+        renames[dm.group(3)] = "diagnostics"
+        body = body[:dm.start(1)] + (dm.group(2) or "") + dm.group(3) + body[dm.end(1):]      # written as field shorthand
+    for old, new in renames.items():
+        # (a path segment `x::diagnostics::y` or a word inside a string literal is not a local)
+        if old != new and not re.search(r"(?<![\w.:])" + new + r"\b(?!\s*::)", re.sub(r'"(?:[^"\\]|\\.)*"', '""', body)):
+            body = re.sub(r"(?<![\w.:])" + re.escape(old) + r"\b(?!\s*::)", new, body)
     conj = []
     for m in re.finditer(r"\bif\s+([^{};]+?)\s*\{", body):
         blk = block_after(body, m.end() - 1)
@@ -1016,8 +1355,18 @@ def gen_driver_shape(repo):
                     break
                 cond = ("!" if neg else "") + binds[0][1]
             conj += [ws(c) for c in cond.split("&&")]
+    # `a && b` and `b && a` are the same condition when neither conjunct does anything but read a value: list such conjuncts in a
+    # canonical (sorted) order. A conjunct with a call that takes arguments keeps its place.
+    if all(re.fullmatch(r"!?[a-z_]\w*(?:\.[a-z_]\w*(?:\(\))?)*", c) for c in conj):
+        conj.sort()
     # ---- main.rs: collect_plugin_output ---------------------------------------------------------
     cb = fn_body(src, "collect_plugin_output", T, rel)
+    # the `std::process::Output`, under whatever name: `let <output> = <child>.wait_with_output()?;`
+    out_name = local_bound_to(cb, r"\w+\.wait_with_output\(\)\?\s*;", "collect_plugin_output: `let <output> = <child>.wait_with_output()?;`", T, rel)
+    if out_name != "output":
+        if re.search(r"(?<![\w.:])output\b(?!\s*::)", re.sub(r'"(?:[^"\\]|\\.)*"', '""', cb)):
+            raise ExtractionError(T, rel, "collect_plugin_output: the name `output` is used for something else than the process output")
+        cb = re.sub(r"(?<![\w.])" + re.escape(out_name) + r"\b", "output", cb)
     mm = re.search(r"match\s+output\s*\.\s*status\s*\.\s*code\s*\(\s*\)\s*", cb)
     if not mm:
         raise ExtractionError(T, rel, "collect_plugin_output: `match output.status.code()` not found")
@@ -1062,18 +1411,29 @@ def gen_driver_shape(repo):
     if i_res < 0 or not m_cf or m_cf.start() < i_res:
         raise ExtractionError(T, rel2, "compile_from_options: resolve_files_from(...) followed by compile_files(...) not found")
     gate_cf = "ungated"
+    # the compilation state of compile_from_options, under whatever name: `let mut <state> = CompilationState::create();`
+    cfo_state = local_bound_to(cfo, r"CompilationState::create\(\)\s*;", "compile_from_options: `let mut <state> = CompilationState::create();`", T, rel2)
     for mi in re.finditer(r"\bif\s+([^{};]+?)\s*\{", cfo[i_res:]):
         blk = block_after(cfo[i_res:], mi.end() - 1)
         if blk is not None and re.search(r"\bcompile_files\s*\(", blk):
-            gate_cf = "if-clean" if ws(mi.group(1)) == "!state.diagnostics.has_errors()" else "if:" + ws(mi.group(1))
+            gate_cf = "if-clean" if ws(mi.group(1)) == "!" + cfo_state + ".diagnostics.has_errors()" else "if:" + ws(mi.group(1))
     rows = [("resolve", "always")]
-    # `apply` / `apply_unsafe` must be "call the function iff no error so far"
+    # `apply` / `apply_unsafe` must be "call the function iff no error so far": compared up to local names, layout, a single-use
+    # local for the test, and the three ways of writing it (`if !e { f }`, `if e { return; } f`, `match e { false => f, true => {} }`)
     rel5 = "slicec/src/compilation_state.rs"
     csrc = read(repo, rel5, T)
+    E = "self.diagnostics.has_errors()"
+    accepted = set()
+    for call in ("function(self);", "function(self)", "unsafe { function(self); }", "unsafe { function(self) }", "unsafe { function(self) };"):
+        for form in ("if !%s { %s }" % (E, call), "if %s { return; } %s" % (E, call), "if %s { return } %s" % (E, call),
+                     "match %s { false => %s, true => {} }" % (E, call.rstrip(";")), "match %s { true => {}, false => %s }" % (E, call.rstrip(";")),
+                     "match %s { true => {}, false => %s, }" % (E, call.rstrip(";")), "match %s { false => %s, true => {}, }" % (E, call.rstrip(";"))):
+            accepted.add(rustcanon.canon(form, ["function"]))
     for fname in ("apply", "apply_unsafe"):
-        ab = fn_body(csrc, fname, T, rel5)
-        if not re.fullmatch(r"if!self\.diagnostics\.has_errors\(\)\{function\(self\);?\}", ws(ab)):
-            raise ExtractionError(T, rel5, f"fn {fname} is no longer `if !self.diagnostics.has_errors() {{ function(self); }}`")
+        ab = fn_body(csrc, fname, T, rel5, r"CompilationState")
+        ap = fn_params(csrc, fname, T, rel5, r"CompilationState")
+        if len(ap) != 1 or rustcanon.canon(ab, ap) not in accepted:
+            raise ExtractionError(T, rel5, f"fn {fname} is no longer `if !self.diagnostics.has_errors() {{ function(self); }}` (or an equivalent spelling of it)")
 
     def group(body_txt, events, clean_at_entry, where):
         """events: list of (regex, kind, name); kind in call/apply/check. returns rows in source order"""
@@ -1095,20 +1455,45 @@ def gen_driver_shape(repo):
         return out
 
     cf = fn_body(lsrc, "compile_files", T, rel2)
+    # the state is compile_files' first parameter, under whatever name
+    cf_params = fn_params(lsrc, "compile_files", T, rel2)
+    if not cf_params:
+        raise ExtractionError(T, rel2, "compile_files has no parameter")
+    st = r"(?<![\w.])" + re.escape(cf_params[0])
     top = group(cf, [
         (r"\bparsers::parse_files\s*\(", "call", "parse"),
-        (r"\bstate\s*\.\s*apply(?:_unsafe)?\s*\(\s*patchers::patch_ast\s*\)", "apply", "PATCH"),
-        (r"\bstate\s*\.\s*apply(?:_unsafe)?\s*\(\s*validators::validate_ast\s*\)", "apply", "VALIDATE"),
-        (r"\bpatchers::patch_ast\s*\(\s*state\s*\)", "call", "PATCH"),
-        (r"\bvalidators::validate_ast\s*\(\s*state\s*\)", "call", "VALIDATE"),
+        (st + r"\s*\.\s*apply(?:_unsafe)?\s*\(\s*patchers::patch_ast\s*\)", "apply", "PATCH"),
+        (st + r"\s*\.\s*apply(?:_unsafe)?\s*\(\s*validators::validate_ast\s*\)", "apply", "VALIDATE"),
+        (r"\bpatchers::patch_ast\s*\(\s*" + st + r"\s*\)", "call", "PATCH"),
+        (r"\bvalidators::validate_ast\s*\(\s*" + st + r"\s*\)", "call", "VALIDATE"),
     ], gate_cf == "if-clean", rel2)
     if [n for n, _g in top] != ["parse", "PATCH", "VALIDATE"]:
         raise ExtractionError(T, rel2, f"compile_files: expected parse_files, patch_ast, validate_ast in this order, found {[n for n, _ in top]}")
     rel3 = "slicec/src/patchers/mod.rs"
-    pb = fn_body(read(repo, rel3, T), "patch_ast", T, rel3)
-    pnames = {"attribute_patcher": "attributes", "type_ref_patcher::patch_ast": "typeRefs", "comment_link_patcher::patch_ast": "links"}
+    psrc = read(repo, rel3, T)
+    pb = fn_body(psrc, "patch_ast", T, rel3)
+    # its state parameter and the local that holds the function built by `patch_attributes!`, under whatever names
+    pa_params = fn_params(psrc, "patch_ast", T, rel3)
+    if not pa_params:
+        raise ExtractionError(T, rel3, "patch_ast has no parameter")
+    pst = r"(?<![\w.])" + re.escape(pa_params[0])
+    attr_local = local_bound_to(pb, r"patch_attributes!\s*\(", "patch_ast: `let <f> = patch_attributes!(..);`", T, rel3)
+    pnames = {attr_local: "attributes", "type_ref_patcher::patch_ast": "typeRefs", "comment_link_patcher::patch_ast": "links"}
     rel4 = "slicec/src/validators/mod.rs"
-    vb = fn_body(read(repo, rel4, T), "validate_ast", T, rel4)
+    vsrc_ = read(repo, rel4, T)
+
+    def inline_private_calls(body_txt, file_src):
+        """a statement `helper(..);` that calls a private free function of the same file which neither returns early nor uses `?`
+        reads like that function's body (one level): moving a few statements into a helper does not change the order of the phases"""
+        def repl(cm):
+            name = cm.group(1)
+            items = [it for it in _fn_items(file_src, name) if it[0] == 0]
+            if len(items) != 1 or re.search(r"\breturn\b|\?", items[0][2]) or re.search(r"\bpub\b[^;{}]*\bfn\s+" + name + r"\b", file_src):
+                return cm.group(0)
+            return "{" + items[0][2] + "}"
+        return re.sub(r"(?<![\w.:!])([a-z_]\w*)\s*\([^;{}]*\)\s*;", repl, body_txt)
+
+    vb = inline_private_calls(fn_body(vsrc_, "validate_ast", T, rel4), vsrc_)
     # the receiver of `has_errors()` is the state's diagnostics, under whatever local name validate_ast gives it
     vsig = re.search(r"\bfn\s+validate_ast\s*\(\s*(\w+)\s*:", read(repo, rel4, T))
     vstate = re.escape(vsig.group(1)) if vsig else r"compilation_state"
@@ -1119,8 +1504,8 @@ def gen_driver_shape(repo):
             rows.append(("parse", gate))
         elif name == "PATCH":
             sub = group(pb, [
-                (r"\bcompilation_state\s*\.\s*apply(?:_unsafe)?\s*\(\s*([\w:]+)\s*\)", "apply", None),
-                (r"\b(attribute_patcher|type_ref_patcher::patch_ast|comment_link_patcher::patch_ast)\s*\(\s*compilation_state\s*\)", "call", None),
+                (pst + r"\s*\.\s*apply(?:_unsafe)?\s*\(\s*([\w:]+)\s*\)", "apply", None),
+                (r"\b(" + re.escape(attr_local) + r"|type_ref_patcher::patch_ast|comment_link_patcher::patch_ast)\s*\(\s*" + pst + r"\s*\)", "call", None),
             ], gate == "if-clean", rel3)
             for n, g in sub:
                 if n not in pnames:
@@ -1186,7 +1571,7 @@ def gen_resolve_kinds(repo):
 
     rel2 = "slicec/src/ast/mod.rs"
     src2 = read(repo, rel2, T)
-    cbody = fn_body(src2, "create", T, rel2)
+    cbody = fn_body(src2, "create", T, rel2, r"Ast")
     keys = re.findall(r'\(\s*"(\w+)"\.to_owned\(\)\s*,\s*(\d+)\s*\)', cbody)
     elems = re.findall(r"Node::Primitive\(OwnedPtr::new\(Primitive::(\w+)\)\)", cbody)
     if not keys or len(keys) != len(elems) or sorted(int(i) for _, i in keys) != list(range(len(keys))):
@@ -1205,14 +1590,20 @@ def gen_resolve_kinds(repo):
     wants = re.findall(r"(\w+)\(\s*(?:Vec<|Option<)?\s*Patch<([^>]+)>", pbody or "")
     if len(wants) < 5:
         raise ExtractionError(T, rel3, "PatchKind variants not understood")
-    rbody = fn_body(src3, "resolve_definition", T, rel3)
-    fm = re.search(r"find_node_with_scope\(\s*&identifier\.value\s*,\s*([^(),]+(?:\(\s*\))?)\s*\)", rbody)
+    rbody = fn_body(src3, "resolve_definition", T, rel3, r"TypeRefPatcher")
+    # its first parameter is the reference; the unpatched identifier is bound from `<ref>.definition`: names are read, not assumed
+    rparams = fn_params(src3, "resolve_definition", T, rel3, r"TypeRefPatcher")
+    ref = rparams[0] if rparams else "type_ref"
+    im = re.search(r"TypeRefDefinition::Unpatched\(\s*(\w+)\s*\)\s*=>?\s*&?\s*" + re.escape(ref) + r"\.definition\b", rbody) or \
+        re.search(r"match\s*&?\s*" + re.escape(ref) + r"\.definition\s*\{[^{}]*?TypeRefDefinition::Unpatched\(\s*(\w+)\s*\)\s*=>", rbody)
+    ident = im.group(1) if im else "identifier"
+    fm = re.search(r"find_node_with_scope\(\s*&\s*" + re.escape(ident) + r"\.value\s*,\s*([^(),]+(?:\(\s*\))?)\s*\)", rbody)
     scope_arg = re.sub(r"\s+", "", fm.group(1)) if fm else ""
     if re.fullmatch(r"[a-z_]\w*", scope_arg):      # a local: it stands for the expression of its single immutable binding
         binds = re.findall(r"\blet\s+(mut\s+)?" + re.escape(scope_arg) + r"\s*(?::[^=;]+)?=(?!=)\s*([^;]+);", rbody[:fm.start()])
         if len(binds) == 1 and not binds[0][0]:
             scope_arg = re.sub(r"\s+", "", binds[0][1])
-    if scope_arg != "type_ref.module_scope()":
+    if scope_arg != ref + ".module_scope()":
         raise ExtractionError(T, rel3, "resolve_definition no longer looks the identifier up in the reference's module scope")
 
     rel4 = "slicec/src/diagnostics/errors.rs"
@@ -1254,6 +1645,28 @@ def fn_body_after_params(src, name, table, rel):
     if b is None:
         raise ExtractionError(table, rel, f"body of fn {name} not found")
     return b
+
+
+def split_statements(text):
+    """the top-level statements of a block's text: each ends at a `;` at depth 0 or at the `}` that closes a block statement
+    (`if .. {..} else {..}`, `match .. {..}`, `for .. {..}`); a `;` after such a `}` is dropped"""
+    out, depth, start = [], 0, 0
+    for i, ch in code_chars(text):
+        if ch in "{([":
+            depth += 1
+        elif ch in "})]":
+            depth -= 1
+            if depth == 0 and ch == "}":
+                rest = text[i + 1:].lstrip()
+                if rest.startswith(("else", ".", "?", ";")):
+                    continue
+                out.append(text[start:i + 1])
+                start = i + 1
+        elif ch == ";" and depth == 0:
+            out.append(text[start:i + 1])
+            start = i + 1
+    out.append(text[start:])
+    return [re.sub(r"\}\s*;$", "}", x.strip()) for x in out if x.strip()]
 
 
 def top_level_groups(src, open_ch="(", close_ch=")"):
@@ -1305,9 +1718,13 @@ def gen_lints(repo):
         kinds.append(mk.group(1))
     if not kinds or len(set(kinds)) != len(kinds):
         raise ExtractionError(T, rel, "no lint kinds / repeated lint kinds")
-    body = fn_body(src, "get_default_level", T, rel)
-    levels = dict((a, b) for a, b in re.findall(r"Self::(\w+)\s*(?:\{[^}]*\}|\([^)]*\))?\s*=>\s*DiagnosticLevel::(\w+)", body))
-    wild = re.search(r"\b_\s*=>\s*DiagnosticLevel::(\w+)", body)
+    body = fn_body(src, "get_default_level", T, rel, r"Lint")
+    # arms `Self::A { .. } | Self::B(..) => DiagnosticLevel::X` (one kind or an or-pattern per arm; the value plain or in a block)
+    levels = {}
+    for pats, lv in re.findall(r"((?:\|?\s*Self::\w+\s*(?:\{[^}]*\}|\([^)]*\))?\s*)+)=>\s*\{?\s*DiagnosticLevel::(\w+)", body):
+        for k in re.findall(r"Self::(\w+)", pats):
+            levels[k] = lv
+    wild = re.search(r"\b_\s*=>\s*\{?\s*DiagnosticLevel::(\w+)", body)
     rows = []
     for k in kinds:
         lv = levels.get(k) or (wild.group(1) if wild else None)
@@ -1335,55 +1752,83 @@ def gen_lints(repo):
     # ---- the level rewrite ------------------------------------------------------------------------
     rel3 = "slicec/src/diagnostics/diagnostic.rs"
     dsrc = read(repo, rel3, T)
-    upd = fn_body(dsrc, "into_updated", T, rel3)
-    by = re.sub(r"\s+", "", fn_body(upd, "is_lint_allowed_by", T, rel3))
-    # closure parameters are bound names: `|identifier| identifier == ..` and `|id| id == ..` are the same function
-    mexact = re.fullmatch(r'identifiers\.any\(\|(\w+)\|\1=="(\w+)"\|\|\1==lint\.code\(\)\)', by)
-    mfold = re.fullmatch(r'identifiers\.any\(\|(\w+)\|\1\.eq_ignore_ascii_case\("(\w+)"\)\|\|\1\.eq_ignore_ascii_case\(lint\.code\(\)\)\)', by)
+    upd = fn_body(dsrc, "into_updated", T, rel3, r"Diagnostics")
+    upd_params = fn_params(dsrc, "into_updated", T, rel3, r"Diagnostics")
+    if len(upd_params) != 3:
+        raise ExtractionError(T, rel3, f"into_updated: parameters (ast, files, options) expected, found {upd_params}")
+    # Everything below is compared up to the names of locals, parameters and closure parameters, layout, field shorthand and
+    # single-use locals (translator/rustcanon.py); what is expected is written as Rust source next to it.
+    by_params, by_body = fn_item(upd, "is_lint_allowed_by", T, rel3)
+    by_names = rustcanon.param_names(by_params)
+    EXACT = 'identifiers.any(|identifier| identifier == "HOLE1" || identifier == lint.code())'
+    FOLD = 'identifiers.any(|identifier| identifier.eq_ignore_ascii_case("HOLE1") || identifier.eq_ignore_ascii_case(lint.code()))'
+    mexact = rustcanon.match(by_body, EXACT, by_names, ["identifiers", "lint"]) if len(by_names) == 2 else None
+    mfold = rustcanon.match(by_body, FOLD, by_names, ["identifiers", "lint"]) if len(by_names) == 2 else None
     if mexact:
-        all_kw, ignore_case = mexact.group(2), False
+        all_kw, ignore_case = mexact[0], False
     elif mfold:
-        all_kw, ignore_case = mfold.group(2), True
+        all_kw, ignore_case = mfold[0], True
     else:
-        raise ExtractionError(T, rel3, "is_lint_allowed_by: comparison not understood: " + by[:120])
+        raise ExtractionError(T, rel3, "is_lint_allowed_by: comparison not understood: " + re.sub(r"\s+", "", by_body)[:120])
     if all_kw not in lits:
         raise ExtractionError(T, rel3, f"the catch-all identifier `{all_kw}` is not an allowable identifier")
-    bya = re.sub(r"\s+", "", fn_body(upd, "is_lint_allowed_by_attributes", T, rel3))
-    if not ("attributable.all_attributes()" in bya and re.search(r"\.filter_map\(\|(\w+)\|\1\.downcast::<attributes::Allow>\(\)\)", bya)
-            and re.search(r"\.any\(\|(\w+)\|is_lint_allowed_by\(\1\.allowed_lints\.iter\(\),lint\)\)", bya)):
+    bya_params, bya_body = fn_item(upd, "is_lint_allowed_by_attributes", T, rel3)
+    bya = rustcanon.canon(bya_body, rustcanon.param_names(bya_params))          # $1 = the attributable, $2 = the lint
+    if not (re.search(r"\$1\.all_attributes\(\)", bya) and re.search(r"\.filter_map\(\|(\$\d+)\|\1\.downcast::<attributes::Allow>\(\)\)", bya)
+            and re.search(r"\.any\(\|(\$\d+)\|is_lint_allowed_by\(\1\.allowed_lints\.iter\(\),\$2\)\)", bya)):
         raise ExtractionError(T, rel3, "is_lint_allowed_by_attributes has an unexpected shape")
-    loop_m = re.search(r"for\s+diagnostic\s+in\s+&mut\s+self\.0\s*", upd)
+    loop_m = re.search(r"for\s+(\w+)\s+in\s+&mut\s+self\.0\s*(?=\{)", upd)
     if not loop_m:
         raise ExtractionError(T, rel3, "into_updated: loop over the diagnostics not found")
-    loop = re.sub(r"\s+", "", block_after(upd, loop_m.end()))
-    steps = ["ifletDiagnosticKind::Lint(lint)=&diagnostic.kind{",
-             "ifis_lint_allowed_by(options.allowed_lints.iter(),lint){diagnostic.level=DiagnosticLevel::Allowed;}",
-             "ifletSome(span)=diagnostic.span(){",
-             "files.iter().find(|f|f.relative_path==span.file)",
-             "ifis_lint_allowed_by_attributes(file,lint){diagnostic.level=DiagnosticLevel::Allowed;}",
-             "ifletSome(scope)=diagnostic.scope(){",
-             "ifletOk(entity)=ast.find_element::<dynEntity>(scope){",
-             "ifis_lint_allowed_by_attributes(entity,lint){diagnostic.level=DiagnosticLevel::Allowed;}"]
-    pos = 0
-    for stp in steps:
-        # literal match, except that the parameter of a one-parameter closure may have any name
-        rx = re.sub(r"\\\|f\\\|f\\\.", lambda _m: r"\|(\w+)\|\1\.", re.escape(stp))
-        q = re.compile(rx).search(loop, pos)
-        if not q:
-            raise ExtractionError(T, rel3, "into_updated: step not found (or out of order): " + stp[:70])
-        pos = q.end()
-    guarded = block_after(loop, 0)
-    if guarded is None or loop != steps[0] + guarded + "}":
+    dvar = loop_m.group(1)
+    loop_raw = block_after(upd, loop_m.end()) or ""
+    # the loop body is exactly one `if let DiagnosticKind::Lint(<lint>) = &<d>.kind { .. }` (or the `match` with an empty `_` arm)
+    lm = re.fullmatch(r"\s*if\s+let\s+DiagnosticKind::Lint\(\s*(\w+)\s*\)\s*=\s*&\s*" + re.escape(dvar) + r"\.kind\s*(?=\{)(.*)", loop_raw, re.S)
+    guarded = None
+    if lm:
+        guarded = block_after(lm.group(2), 0)
+        if guarded is None or lm.group(2).strip() != "{" + guarded + "}":
+            guarded = None
+    else:
+        lm = re.fullmatch(r"\s*match\s*&\s*" + re.escape(dvar) + r"\.kind\s*\{\s*DiagnosticKind::Lint\(\s*(\w+)\s*\)\s*=>\s*(?=\{)(.*)", loop_raw, re.S)
+        if lm:
+            guarded = block_after(lm.group(2), 0)
+            if guarded is None or not re.fullmatch(r",?\s*_\s*=>\s*(?:\{\s*\}|\(\))\s*,?\s*\}\s*;?\s*", lm.group(2).strip()[len(guarded) + 2:]):
+                guarded = None
+    if guarded is None:
         raise ExtractionError(T, rel3, "into_updated: the loop body is not exactly one `if let DiagnosticKind::Lint(lint) = &diagnostic.kind { … }`")
-    if not loop.startswith(steps[0]) or loop.count("diagnostic.level=") != 3 or len(re.findall(r"\.level\s*=[^=]", upd)) != 3:
+    # inside it: three independent tests, each of which can only set the level to Allowed -- so their order means nothing
+    P_ACT = upd_params + [dvar, lm.group(1)]
+    P_EXP = ["ast", "files", "options", "diagnostic", "lint"]
+    SET = "diagnostic.level = DiagnosticLevel::Allowed;"
+    UNITS = {
+        "command line": ["if is_lint_allowed_by(options.allowed_lints.iter(), lint) { %s }" % SET],
+        "file attributes": ["if let Some(span) = diagnostic.span() { let file = files.iter().find(|f| f.relative_path == span.file).expect(\"no file\");"
+                            " if is_lint_allowed_by_attributes(file, lint) { %s } }" % SET],
+        "scope attributes": ["if let Some(scope) = diagnostic.scope() { if let Ok(entity) = ast.find_element::<dyn Entity>(scope) {"
+                             " if is_lint_allowed_by_attributes(entity, lint) { %s } } }" % SET,
+                             "if let Some(scope) = diagnostic.scope() { match ast.find_element::<dyn Entity>(scope) {"
+                             " Ok(entity) if is_lint_allowed_by_attributes(entity, lint) => { %s } _ => {} } }" % SET,
+                             "if let Some(scope) = diagnostic.scope() { match ast.find_element::<dyn Entity>(scope) {"
+                             " Ok(entity) if is_lint_allowed_by_attributes(entity, lint) => { %s }, _ => {}, } }" % SET,
+                             "if let Some(scope) = diagnostic.scope() { if let Ok(entity) = ast.find_element::<dyn Entity>(scope) {"
+                             " if is_lint_allowed_by_attributes(entity, lint) { %s } }; }" % SET],
+    }
+    expected = {rustcanon.canon(src_, P_EXP): what for what, alts in UNITS.items() for src_ in alts}
+    seen_units = []
+    for stmt in split_statements(guarded):
+        what = expected.get(rustcanon.canon(stmt, P_ACT))
+        if what is None:
+            raise ExtractionError(T, rel3, "into_updated: statement not understood: " + re.sub(r"\s+", " ", stmt)[:90])
+        seen_units.append(what)
+    if sorted(seen_units) != sorted(UNITS):
+        raise ExtractionError(T, rel3, f"into_updated: expected one test each for {sorted(UNITS)}, found {seen_units}")
+    if len(re.findall(r"\.level\s*=[^=]", upd)) != 3:
         raise ExtractionError(T, rel3, "into_updated: the loop body is not a single `if let Lint` with three level assignments")
     # `fn new` of `impl Diagnostic` (the file also has `Diagnostics::new`; which comes first in the file is immaterial)
-    im = re.search(r"\bimpl\s+Diagnostic\s*\{", dsrc)
-    ib = block_after(dsrc, im.end() - 1) if im else None
-    if ib is None:
-        raise ExtractionError(T, rel3, "`impl Diagnostic {` not found")
-    newb = re.sub(r"\s+", "", fn_body(ib, "new", T, rel3))
-    if "DiagnosticKind::Error(_)=>DiagnosticLevel::Error," not in newb or "DiagnosticKind::Lint(lint)=>lint.get_default_level()," not in newb:
+    newb = rustcanon.canon(fn_body(dsrc, "new", T, rel3, r"Diagnostic"), fn_params(dsrc, "new", T, rel3, r"Diagnostic"))
+    if not re.search(r"DiagnosticKind::Error\((?:_|\.\.)\)=>DiagnosticLevel::Error,", newb) or \
+       not re.search(r"DiagnosticKind::Lint\((\$\d+)\)=>\1\.get_default_level\(\),", newb):
         raise ExtractionError(T, rel3, "Diagnostic::new: initial level has an unexpected shape")
 
     # ---- scope recorded at every lint creation site -----------------------------------------------
@@ -1416,7 +1861,13 @@ def gen_lints(repo):
                     kind = mk.group(1)
                 if "push_into" in head:
                     raise ExtractionError(T, relf, "set_scope could not be attributed to its diagnostic")
-                sites.append((kind, relf[len("slicec/src/"):], re.sub(r"\s+", "", arg)))
+                arg = re.sub(r"\s+", "", arg)
+                # what is recorded is said by the method; the receiver, when it is a plain local, has a name without meaning: it is
+                # spelled `entity` (for `.parser_scoped_identifier()`) / `type_ref` (for `.parser_scope()`) whatever the code calls it
+                rm_ = re.fullmatch(r"[a-z_]\w*\.(parser_scoped_identifier|parser_scope)\(\)", arg)
+                if rm_:
+                    arg = {"parser_scoped_identifier": "entity", "parser_scope": "type_ref"}[rm_.group(1)] + "." + rm_.group(1) + "()"
+                sites.append((kind, relf[len("slicec/src/"):], arg))
             # every lint creation without a scope must be listed too
             for mm in re.finditer(r"Lint::(\w+)\s*\{", fsrc):
                 stmt = fsrc[mm.start():]
@@ -1429,28 +1880,34 @@ def gen_lints(repo):
     psrc = read(repo, "slicec/src/parsers/comments/mod.rs", T)
     if len(re.findall(r"Lint::MalformedDocComment", psrc)) != 3 or "set_scope" in psrc:
         raise ExtractionError(T, "slicec/src/parsers/comments/mod.rs", "construct_lint_from has an unexpected shape")
-    gsrc = re.sub(r"\s+", "", fn_body(read(repo, "slicec/src/parsers/slice/grammar.rs", T), "parse_doc_comment", T, "slicec/src/parsers/slice/grammar.rs"))
-    if not ("letscoped_identifier=get_scoped_identifier(identifier,&parser.current_scope.parser_scope);" in gsrc
-            and "CommentParser::new(parser.file_name,&scoped_identifier,parser.diagnostics)" in gsrc):
-        raise ExtractionError(T, "slicec/src/parsers/slice/grammar.rs", "parse_doc_comment does not hand the element's scoped identifier to the comment parser")
+    relr = "slicec/src/parsers/slice/grammar.rs"
+    grs = read(repo, relr, T)
+    # $1 = the parser, $2 = the element's identifier; the scoped identifier goes through a local (any name) or straight into the call
+    gsrc = rustcanon.canon(fn_body(grs, "parse_doc_comment", T, relr), fn_params(grs, "parse_doc_comment", T, relr))
+    scoped = r"get_scoped_identifier\(\$2,&\$1\.current_scope\.parser_scope\)"
+    via = re.search(r"let (\$\d+)=" + scoped + ";", gsrc)
+    if not (re.search(r"CommentParser::new\(\$1\.file_name,&" + scoped + r",\$1\.diagnostics\)", gsrc)
+            or (via and re.search(r"CommentParser::new\(\$1\.file_name,&" + re.escape(via.group(1)) + r",\$1\.diagnostics\)", gsrc))):
+        raise ExtractionError(T, relr, "parse_doc_comment does not hand the element's scoped identifier to the comment parser")
     # ---- the parser scope in which type references are written (grammar.lalrpop) ----------------------
     # `Deprecated` records `type_ref.parser_scope()`; a `TypeRef` copies `parser.current_scope`, which `ContainerIdentifier`
     # extends by the identifier it reads and `ContainerEnd` restores. So the scope of a written type reference is a fact of
     # the grammar: is the reference between the `ContainerIdentifier` and the `ContainerEnd` of its own production or not.
     relg = "slicec/src/parsers/slice/grammar.lalrpop"
     gram = read(repo, relg, T)
-    relr = "slicec/src/parsers/slice/grammar.rs"
-    ctr = re.sub(r"\s+", "", fn_body(read(repo, relr, T), "construct_type_ref", T, relr))
-    if "scope:parser.current_scope.clone()," not in ctr:
+    # $1 = the parser (first parameter); field shorthand is written out and a single-use local is inlined by the canonical form
+    ctr = rustcanon.canon(fn_body(grs, "construct_type_ref", T, relr), fn_params(grs, "construct_type_ref", T, relr))
+    if not re.search(r"TypeRef\{[^{}]*\bscope:\$1\.current_scope\.clone\(\),", ctr):
         raise ExtractionError(T, relr, "construct_type_ref does not store `parser.current_scope.clone()` as the reference's scope")
     relu = "slicec/src/grammar/util.rs"
     usrc = read(repo, relu, T)
-    push = re.sub(r"\s+", "", fn_body(usrc, "push_scope", T, relu))
-    if push != 'if!self.parser_scope.is_empty(){self.parser_scope.push_str("::");}self.parser_scope.push_str(scope);':
+    if not rustcanon.same(fn_body(usrc, "push_scope", T, relu, r"Scope"),
+                          'if !self.parser_scope.is_empty() { self.parser_scope.push_str("::"); } self.parser_scope.push_str(scope);',
+                          fn_params(usrc, "push_scope", T, relu, r"Scope"), ["scope"]):
         raise ExtractionError(T, relu, "Scope::push_scope is not `parser_scope += \"::\" (unless empty) + scope`")
-    pop = re.sub(r"\s+", "", fn_body(usrc, "pop_scope", T, relu))
-    if not ('ifletSome(last_scope_index)=self.parser_scope.rfind("::"){' in pop and "self.parser_scope.truncate(last_scope_index);" in pop
-            and pop.endswith("self.parser_scope.clear();}")):
+    pop = rustcanon.canon(fn_body(usrc, "pop_scope", T, relu, r"Scope"))
+    pm = re.search(r'if let Some\((\$\d+)\)=self\.parser_scope\.rfind\("::"\)\{', pop)
+    if not (pm and ("self.parser_scope.truncate(%s);" % pm.group(1)) in pop and pop.endswith("self.parser_scope.clear();}")):
         raise ExtractionError(T, relu, "Scope::pop_scope does not remove the last `::segment`")
 
     def production(name):
@@ -1462,11 +1919,22 @@ def gen_lints(repo):
             raise ExtractionError(T, relg, f"production {name}: unbalanced block")
         return blk
 
-    ci = re.sub(r"\s+", "", production("ContainerIdentifier"))
-    if ci != "Identifier=>{parser.current_scope.push_scope(&<>.value);<>},":
+    def single_alternative(name):
+        """(symbols, action) of a production with one alternative; white space, the braces around the action, a closing `;` inside
+        it and the comma after it are layout"""
+        alts = _split_alternatives(production(name), T, relg, name)
+        if len(alts) != 1:
+            raise ExtractionError(T, relg, f"{name}: one alternative expected, found {len(alts)}")
+        return re.sub(r"\s+", "", alts[0][0]), re.sub(r"\s+", "", alts[0][1]).rstrip(";")
+
+    ci_syms, ci_act = single_alternative("ContainerIdentifier")
+    nm = re.fullmatch(r"<(\w+):Identifier>", ci_syms)         # the identifier may be bound by name instead of `<>`
+    ci_ok = (ci_syms == "Identifier" and ci_act == "parser.current_scope.push_scope(&<>.value);<>") or \
+        (nm and ci_act == "parser.current_scope.push_scope(&%s.value);%s" % (nm.group(1), nm.group(1)))
+    if not ci_ok:
         raise ExtractionError(T, relg, "ContainerIdentifier is not `Identifier => { parser.current_scope.push_scope(&<>.value); <> }`")
-    ce = re.sub(r"\s+", "", production("ContainerEnd"))
-    if ce != "=>parser.current_scope.pop_scope(),":
+    ce_syms, ce_act = single_alternative("ContainerEnd")
+    if ce_syms != "" or ce_act != "parser.current_scope.pop_scope()":
         raise ExtractionError(T, relg, "ContainerEnd is not `=> parser.current_scope.pop_scope()`")
 
     def flat_symbols(text):
@@ -1539,12 +2007,18 @@ def gen_lints(repo):
     # ---- `allow` attribute: argument validation, targets --------------------------------------------
     rel4 = "slicec/src/grammar/attributes/allow.rs"
     asrc = read(repo, rel4, T)
-    pf = re.sub(r"\s+", "", fn_body_after_params(asrc, "parse_from", T, rel4))
-    if "letmutis_valid=Lint::ALLOWABLE_LINT_IDENTIFIERS.contains(&arg.as_str());" not in pf or "letallowed_lints=args.clone();" not in pf:
+    # canonical names: $1 $2 $3 $4 = directive, args, span, diagnostics (the parameters); the loop variable and the validity flag are
+    # whatever `for <a> in args` and `let mut <v> = Lint::ALLOWABLE_LINT_IDENTIFIERS.contains(&<a>.as_str());` call them
+    pf = rustcanon.canon(fn_body(asrc, "parse_from", T, rel4, r"Allow"), fn_params(asrc, "parse_from", T, rel4, r"Allow"))
+    vm = re.search(r"for (\$\d+) in \$2\{.*?let mut (\$\d+)=Lint::ALLOWABLE_LINT_IDENTIFIERS\.contains\(&\1\.as_str\(\)\);", pf)
+    if not vm or not re.search(r"Allow\{allowed_lints:\$2\.clone\(\),?\}", pf):
         raise ExtractionError(T, rel4, "Allow::parse_from: validation / stored arguments have an unexpected shape")
-    rejected = re.findall(r'ifarg=="(\w+)"\{is_valid=false;\}', pf)
-    vo = re.sub(r"\s+", "", fn_body(asrc, "validate_on", T, rel4))
-    mv = re.search(r"matches!\(applied_on,([^)]*\)(?:\|[^)]*\))*)\)", vo)
+    arg_v, valid_v = re.escape(vm.group(1)), re.escape(vm.group(2))
+    rejected = re.findall(r'if ' + arg_v + r'=="(\w+)"\{' + valid_v + r'=false;\}', pf)
+    if len(re.findall(valid_v + r"=", pf)) != 1 + len(rejected) or not re.search(r"if!" + valid_v + r"\{", pf):
+        raise ExtractionError(T, rel4, "Allow::parse_from: the validity flag is assigned or used in a way that is not understood")
+    vo = rustcanon.canon(fn_body(asrc, "validate_on", T, rel4, r"Allow"), fn_params(asrc, "validate_on", T, rel4, r"Allow"))
+    mv = re.search(r"matches!\(\$1,([^)]*\)(?:\|[^)]*\))*)\)", vo)
     if not mv:
         raise ExtractionError(T, rel4, "Allow::validate_on has an unexpected shape")
     bad_targets = re.findall(r"Attributables::(\w+)\(_\)", mv.group(1))
@@ -1553,9 +2027,11 @@ def gen_lints(repo):
 
     # ---- attribute inheritance (`all_attributes`) ----------------------------------------------------
     rel5 = "slicec/src/grammar/traits.rs"
-    tsrc = re.sub(r"\s+", "", read(repo, rel5, T))
-    if "(@Contained$type:ty$(,$($bounds:tt)+)?)=>{" not in tsrc or \
-       "letmutattributes_list=self.attributes();attributes_list.extend(self.parent().all_attributes());attributes_list" not in tsrc:
+    tsrc = read(repo, rel5, T)
+    am = re.search(r"\(\s*@Contained\s+\$\w+\s*:\s*ty\s*\$\(\s*,\s*\$\(\s*\$\w+\s*:\s*tt\s*\)\s*\+\s*\)\s*\?\s*\)\s*=>\s*(?=\{)", tsrc)
+    arm = block_after(tsrc, am.end()) if am else None
+    if arm is None or not rustcanon.same(fn_body(arm, "all_attributes", T, rel5),
+                                         "let mut attributes_list = self.attributes(); attributes_list.extend(self.parent().all_attributes()); attributes_list"):
         raise ExtractionError(T, rel5, "implement_Attributable_for!(@Contained ..) is not `own ++ parent.all_attributes()`")
     contained, plain = [], []
     edir = os.path.join(repo, "slicec", "src", "grammar", "elements")
@@ -1624,7 +2100,7 @@ def gen_comment_keywords(repo):
     """tag keywords of the doc-comment lexer: `read_tag_keyword` match arms + the inline/block validity match"""
     T, rel = "CommentKeywords", "slicec/src/parsers/comments/lexer.rs"
     src = read(repo, rel, T)
-    body = fn_body(src, "read_tag_keyword", T, rel)
+    body = fn_body(src, "read_tag_keyword", T, rel, r"Lexer")
     # the start of the token is `self.cursor` saved in a local before the '@' is consumed; its name is read, not assumed
     lm = re.search(r"\blet\s+(\w+)\s*=\s*self\.cursor\s*;", body)
     if not lm:
@@ -1637,16 +2113,20 @@ def gen_comment_keywords(repo):
         raise ExtractionError(T, rel, "the `\"\" => MissingTag` arm is gone")
     if not re.search(r'\w+\s*=>\s*Err\(\(\s*' + start + r'\s*,\s*ErrorKind::UnknownTag', body):
         raise ExtractionError(T, rel, "the catch-all UnknownTag arm is gone")
-    m = re.search(r'let\s+is_valid\s*=\s*match\s+token_kind', body)
-    if not m:
-        raise ExtractionError(T, rel, "validity match on token_kind not found")
-    vbody = block_after(body, m.end())
+    # `let <inline> = self.mode == LexerMode::InlineTag;` and `let <valid> = match <kind> { TokenKind::X | .. => [!]<inline>, .. }`:
+    # the three locals are found by what they are bound to, under whatever names
+    inl = re.escape(local_bound_to(body, r"self\.mode\s*==\s*LexerMode::InlineTag\s*;", "`let <inline> = self.mode == LexerMode::InlineTag;`", T, rel))
+    vbody = None
+    for m in re.finditer(r"\blet\s+\w+\s*=\s*match\s+\*?\w+\s*(?=\{)", body):
+        blk = block_after(body, m.end())
+        if blk is not None and re.search(r"TokenKind::\w+\s*=>\s*!?\s*" + inl + r"\b", blk):
+            vbody = blk
     if vbody is None:
-        raise ExtractionError(T, rel, "validity match block not balanced")
+        raise ExtractionError(T, rel, "validity match `let <valid> = match <kind> { TokenKind::X => [!]<inline>, .. }` not found")
     inline = {}
-    for lhs, rhs in re.findall(r'((?:TokenKind::\w+\s*\|?\s*)+)=>\s*(!?\s*is_inline)\s*,', vbody):
+    for lhs, rhs in re.findall(r'((?:TokenKind::\w+\s*\|?\s*)+)=>\s*(!?\s*' + inl + r')\s*,', vbody):
         for k in re.findall(r'TokenKind::(\w+)', lhs):
-            inline[k] = not rhs.replace(" ", "").startswith("!")
+            inline[k] = not rhs.strip().startswith("!")
     rows = []
     for kw, tok in arms:
         if tok not in inline:
@@ -1717,7 +2197,13 @@ def gen_encoder_shapes(repo):
     if not mm:
         raise ExtractionError(T, rel, "macro implement_encode_into_for_struct not found")
     mbody = block_after(src, mm.end())
-    if mbody is None or not re.search(r"\$\(\s*encoder\.encode\(&self\.\$field_name\)\?;\s*\)\*\s*encoder\.encode_varint\(TAG_END_MARKER\)\?;\s*Ok\(\(\)\)", mbody):
+    # the metavariables and the encoder parameter are read from the macro itself: `($t:ty $(, $f:ident)* $(,)?) => { .. fn encode_into(self, <e>: ..`
+    mv = re.search(r"\(\s*\$(\w+)\s*:\s*ty\s*\$\(\s*,\s*\$(\w+)\s*:\s*ident\s*\)\s*\*\s*(?:\$\(\s*,\s*\)\s*\?\s*)?\)\s*=>", mbody or "")
+    en = re.search(r"\bfn\s+encode_into\s*\(\s*self\s*,\s*(\w+)\s*:", mbody or "")
+    if not mv or not en or not re.search(r"impl\s+EncodeInto\s+for\s+&\s*\$" + mv.group(1) + r"\b", mbody):
+        raise ExtractionError(T, rel, "macro implement_encode_into_for_struct: matcher `($type:ty $(, $field:ident)* $(,)?)` / `impl EncodeInto for &$type` / `fn encode_into(self, encoder: ..)` not found")
+    fvar, evar = re.escape(mv.group(2)), re.escape(en.group(1))
+    if not re.search(r"\$\(\s*" + evar + r"\.encode\(\s*&\s*self\.\$" + fvar + r"\s*\)\?;\s*\)\*\s*" + evar + r"\.encode_varint\(TAG_END_MARKER\)\?;\s*Ok\(\(\)\)", mbody):
         raise ExtractionError(T, rel, "macro body is not `$(encoder.encode(&self.$field_name)?;)* encoder.encode_varint(TAG_END_MARKER)?; Ok(())`")
     tm = re.search(r"const\s+TAG_END_MARKER\s*:\s*i32\s*=\s*(-?\d+)\s*;", src)
     if not tm:
@@ -1821,43 +2307,53 @@ def gen_encoder_shapes(repo):
     # ---- main.rs: the request as a whole -------------------------------------------------------
     rel2 = "slicec/src/main.rs"
     msrc = read(repo, rel2, T)
-    body = fn_body(msrc, "encode_generate_code_request", T, rel2)
-    opn = re.search(r"slice_encoder\.encode\(\s*\"([^\"]*)\"\s*\)\?", body)
+    # canonical form (translator/rustcanon.py): $1 = the parameter (the parsed files); every local is `$n`, whatever it is called
+    body = rustcanon.canon(fn_body(msrc, "encode_generate_code_request", T, rel2), fn_params(msrc, "encode_generate_code_request", T, rel2))
+    V = r"(\$\d+)"
+    encs = re.findall(r"let mut " + V + r"=Encoder::from\(&mut " + V + r"\);", body)
+    if len(encs) != 1:
+        raise ExtractionError(T, rel2, "encode_generate_code_request: one `let mut <encoder> = Encoder::from(&mut <buffer>);` expected")
+    enc, buf = re.escape(encs[0][0]), re.escape(encs[0][1])
+    opn = re.search(enc + r'\.encode\("([^"]*)"\)\?', body)
     if not opn:
-        raise ExtractionError(T, rel2, "the operation-name literal `slice_encoder.encode(\"…\")?` was not found")
-    seq_calls = [re.sub(r"\s+", "", c) for c in re.findall(r"slice_encoder\.encode\(\s*&\s*(\w+)\s*\)\?", body)]
+        raise ExtractionError(T, rel2, "the operation-name literal `<encoder>.encode(\"…\")?` was not found")
+    seq_calls = re.findall(enc + r"\.encode\(&" + V + r"\)\?", body)
     if len(seq_calls) != 2:
-        raise ExtractionError(T, rel2, f"expected two `slice_encoder.encode(&…)?` calls, found {seq_calls}")
-    if body.find(opn.group(0)) > body.find("slice_encoder.encode(&"):
+        raise ExtractionError(T, rel2, f"expected two `<encoder>.encode(&…)?` calls, found {len(seq_calls)}")
+    if body.find(opn.group(0)) > re.search(enc + r"\.encode\(&", body).start():
         raise ExtractionError(T, rel2, "the operation name is not encoded first")
+    if len(re.findall(enc + r"\.encode", body)) != 3 or not body.endswith("Ok(%s)" % encs[0][1]):
+        raise ExtractionError(T, rel2, "encode_generate_code_request: something else is encoded, or the buffer is not what is returned")
+    lp = re.search(r"for " + V + r" in \$1\{", body)
+    cv = lp and re.search(r"let " + V + r"=definition_types::SliceFile::from\(" + re.escape(lp.group(1)) + r"\);", body)
+    if not lp or not cv:
+        raise ExtractionError(T, rel2, "the conversion loop `for parsed_file in parsed_files { … SliceFile::from(parsed_file) … }` not found")
+    pf, conv = re.escape(lp.group(1)), re.escape(cv.group(1))
     # source files go to one vector, reference files to the other: as a `match` on the bool (arms in either order) or as `if`/`else`
-    push = r"(\w+)\.push\(converted_file\)\s*[;,]?"
+    push = V + r"\.push\(" + conv + r"\)[;,]?"
     routing = None
-    for pat, swap in ((r"match\s+parsed_file\.is_source\s*\{\s*true\s*=>\s*" + push + r"\s*false\s*=>\s*" + push + r"\s*\}", False),
-                      (r"match\s+parsed_file\.is_source\s*\{\s*false\s*=>\s*" + push + r"\s*true\s*=>\s*" + push + r"\s*\}", True),
-                      (r"if\s+parsed_file\.is_source\s*\{\s*" + push + r"\s*\}\s*else\s*\{\s*" + push + r"\s*\}", False),
-                      (r"if\s+!\s*parsed_file\.is_source\s*\{\s*" + push + r"\s*\}\s*else\s*\{\s*" + push + r"\s*\}", True)):
+    for pat, swap in ((r"match " + pf + r"\.is_source\{true=>" + push + r"false=>" + push + r"\}", False),
+                      (r"match " + pf + r"\.is_source\{false=>" + push + r"true=>" + push + r"\}", True),
+                      (r"if " + pf + r"\.is_source\{" + push + r"\}else\{" + push + r"\}", False),
+                      (r"if!" + pf + r"\.is_source\{" + push + r"\}else\{" + push + r"\}", True)):
         mm = re.search(pat, body)
         if mm:
-            class _R:          # group(1) = vector of the source files, group(2) = vector of the reference files
-                g = (mm.group(2), mm.group(1)) if swap else (mm.group(1), mm.group(2))
-                def group(self, i): return self.g[i - 1]
-            routing = _R()
+            routing = (mm.group(2), mm.group(1)) if swap else (mm.group(1), mm.group(2))     # (vector of sources, vector of references)
             break
-    if not routing or len(re.findall(r"\.push\(converted_file\)", body)) != 2:
+    if not routing or len(re.findall(r"\.push\(" + conv + r"\)", body)) != 2:
         raise ExtractionError(T, rel2, "`match parsed_file.is_source { true => X.push(converted_file), false => Y.push(converted_file) }` (or the if/else form) not found")
-    if not re.search(r"for\s+parsed_file\s+in\s+parsed_files\b", body) or not re.search(r"definition_types::SliceFile::from\(parsed_file\)", body):
-        raise ExtractionError(T, rel2, "the conversion loop `for parsed_file in parsed_files { … SliceFile::from(parsed_file) … }` not found")
-    skips = bool(re.search(r"if\s+parsed_file\.module\.is_none\(\)\s*\{\s*continue;\s*\}", body))
+    skips = bool(re.search(r"if " + pf + r"\.module\.is_none\(\)\{continue;\}", body))
     n_cont = len(re.findall(r"\bcontinue\b", body))
     if n_cont != (1 if skips else 0):
         raise ExtractionError(T, rel2, "an unexpected `continue` in the conversion loop")
-    order = ["sources" if c == routing.group(1) else "references" if c == routing.group(2) else "?" for c in seq_calls]
+    order = ["sources" if c == routing[0] else "references" if c == routing[1] else "?" for c in seq_calls]
     if "?" in order:
-        raise ExtractionError(T, rel2, f"encoded vectors {seq_calls} are not the ones filled by the is_source match")
-    sp = fn_body(msrc, "spawn_plugin_process", T, rel2)
-    w1, w2 = sp.find("stdin.write_all(slice_payload)"), sp.find("stdin.write_all(&arguments_payload)")
-    if w1 < 0 or w2 < 0 or w2 < w1 or not re.search(r"slice_encoder\.encode\(definition_types::Arguments\(plugin\.args\.clone\(\)\)\)\?", sp):
+        raise ExtractionError(T, rel2, "the encoded vectors are not the ones filled by the is_source match")
+    # spawn_plugin_process: $1 = the plugin, $2 = the payload
+    sp = rustcanon.canon(fn_body(msrc, "spawn_plugin_process", T, rel2), fn_params(msrc, "spawn_plugin_process", T, rel2))
+    w1 = re.search(V + r"\.write_all\(\$2\)\?;", sp)
+    if not w1 or not re.search(r"let mut " + V + r"=Vec::new\(\);let mut " + V + r"=Encoder::from\(&mut \1\);\2\.encode\(definition_types::Arguments\(\$1\.args\.clone\(\)\)\)\?;"
+                               + re.escape(w1.group(1)) + r"\.write_all\(&\1\)\?;", sp[w1.end():]) or len(re.findall(r"\.write_all\(", sp)) != 2:
         raise ExtractionError(T, rel2, "spawn_plugin_process: payload then `Arguments(plugin.args.clone())` not found in this order")
     lines.append("/-- `encode_generate_code_request` (main.rs): operation name literal, the order of the two encoded vectors,")
     lines.append("    whether a file without module declaration is skipped; `spawn_plugin_process` writes the payload, then the arguments -/")
@@ -2159,9 +2655,15 @@ def gen_visitor_reach(repo):
     (enum underlying type, interface bases)?"""
     T, rel = "VisitorReach", "slicec/src/validators/mod.rs"
     src = read(repo, rel, T)
-    ve = fn_body(src, "visit_enum", T, rel)
-    vi = fn_body(src, "visit_interface", T, rel)
-    if "validate_attributes(enum_def" not in ve or "validate_attributes(interface" not in vi:
+    IMPL = r"Visitor\s+for\s+ValidatorVisitor"
+    ve = fn_body(src, "visit_enum", T, rel, IMPL)
+    vi = fn_body(src, "visit_interface", T, rel, IMPL)
+    # the visited definition is each method's (only) parameter, under whatever name
+    pe, pi = fn_params(src, "visit_enum", T, rel, IMPL), fn_params(src, "visit_interface", T, rel, IMPL)
+    if len(pe) != 1 or len(pi) != 1:
+        raise ExtractionError(T, rel, "visit_enum / visit_interface: one parameter expected")
+    pe, pi = pe[0], pi[0]
+    if not re.search(r"\bvalidate_attributes\(\s*" + re.escape(pe) + r"\s*,", ve) or not re.search(r"\bvalidate_attributes\(\s*" + re.escape(pi) + r"\s*,", vi):
         raise ExtractionError(T, rel, "visit_enum / visit_interface no longer validate the attributes of the definition itself")
     # The question is semantic ("is validate_attributes_of applied to the underlying type / to every base?"), so the call may be
     # written with or without a path prefix, and the reference may be bound by `if let`, `match`, `for` or an iterator adaptor.
@@ -2188,8 +2690,8 @@ def gen_visitor_reach(repo):
                 return True
         raise ExtractionError(T, rel, f"{what}: validate_attributes_of is called, but its argument is not recognisably bound from `{field}`")
 
-    und = applied(ve, "enum_def.underlying", "visit_enum")
-    bas = applied(vi, "interface.bases", "visit_interface")
+    und = applied(ve, pe + ".underlying", "visit_enum")
+    bas = applied(vi, pi + ".bases", "visit_interface")
     if und != bas:
         raise ExtractionError(T, rel, "only one of enum underlying types / interface bases has its attributes validated: not modelled")
     text = "-- GENERATED by translator/extract.py from slicec/src/validators/mod.rs — do not edit.\nnamespace Slicec.Gen\n" \
@@ -2205,7 +2707,11 @@ def gen_comment_sanitize(repo):
     T, rel = "CommentSanitize", "slicec/src/parsers/comments/grammar.rs"
     src = read(repo, rel, T)
     body = fn_body(src, "sanitize_message_lines", T, rel)
-    if not re.search(r"MessageComponent::Link\(\s*_\s*\)\s*=>\s*\{\s*(\w+)\s*=\s*0\s*;\s*break\s*;\s*\}", body):
+    # a test that is first bound to a local used nowhere else (`let b = <test>; if b {`) reads like `if <test> {`
+    for lm in list(re.finditer(r"\blet\s+(\w+)\s*(?::\s*bool\s*)?=(?!=)\s*([^;{}]+);\s*if\s+(\w+)\s*\{", body)):
+        if lm.group(1) == lm.group(3) and len(re.findall(r"\b" + re.escape(lm.group(1)) + r"\b", body)) == 2:
+            body = body.replace(lm.group(0), "if " + lm.group(2).strip() + " {")
+    if not re.search(r"MessageComponent::Link\(\s*(?:_|\.\.)\s*\)\s*=>\s*\{\s*(\w+)\s*=\s*0\s*;\s*break\s*;\s*\}", body):
         raise ExtractionError(T, rel, "sanitize_message_lines: the `Link(_) => { common = 0; break; }` arm is gone")
     # What is stripped: `X.replace_range(..V, "")`. V is a *character* boundary iff it is bound by a `let V = …;` whose right-hand side
     # (possibly through one intermediate iterator binding) contains `.char_indices()`, `.nth(<count>)` and `.unwrap_or(<text>.len())`;
@@ -2223,9 +2729,9 @@ def gen_comment_sanitize(repo):
         mrecv = re.match(r"\s*(\w+)\s*\.\s*nth\(", rhs)
         chain = rhs + (" " + lets.get(mrecv.group(1), "") if mrecv else "")
         return bool(re.search(r"\.\s*char_indices\(\)", chain) and re.search(r"\.\s*nth\(\s*\w+\s*\)", rhs)
-                    and re.search(r"\.\s*unwrap_or\(\s*\w+\.len\(\)\s*\)", rhs))
+                    and re.search(r"\.\s*unwrap_or\(\s*\w+\.len\(\)\s*\)|\.\s*unwrap_or_else\(\s*\|\s*\|\s*\w+\.len\(\)\s*\)", rhs))
 
-    wsp = r"(?:\|(\w+)\|\s*\1\.is_whitespace\(\)|\|(\w+)\|\s*char::is_whitespace\(\s*\*\2\s*\))"
+    wsp = r"(?:\|\s*&?\s*(\w+)\s*\|\s*\1\.is_whitespace\(\)|\|(\w+)\|\s*char::is_whitespace\(\s*\*\2\s*\))"
     cnt = r"\w+\.chars\(\)\s*\.count\(\)"
     new = {
         "count": re.search(r"\w+\.chars\(\)\s*\.take_while\(\s*" + wsp + r"\s*\)\s*\.count\(\)", body),
@@ -2262,7 +2768,7 @@ def gen_param_docs(repo):
     T, rel = "ParamDocs", "slicec/src/slice_file_converter.rs"
     src = read(repo, rel, T)
     body = fn_body(src, "get_doc_comment_for_parameter", T, rel)
-    conv = fn_body(src, "convert_operation", T, rel)
+    conv = fn_body(src, "convert_operation", T, rel, r"SliceFileContentsConverter")
     # the names of the function's own parameters and locals are read from the source, not assumed
     sig = re.search(r"\bfn\s+get_doc_comment_for_parameter\s*\(\s*(\w+)\s*:\s*&\s*\w+\s*(?:,\s*(\w+)\s*:\s*bool\s*)?,?\s*\)", src)
     if not sig:
@@ -2278,25 +2784,30 @@ def gen_param_docs(repo):
     else:
         raise ExtractionError(T, rel, "get_doc_comment_for_parameter: the operation's doc comment is not bound by `let c = p.parent().comment()?;` "
                                       "(or `let op = p.parent(); let c = op.comment()?;`)")
-    same_id = r"\.value\s*==\s*" + par + r"\.identifier\(\)"
-    params = re.search(com + r"\s*\.\s*params\s*\.\s*iter\(\)\s*\.find\(\|(\w+)\|\s*\1\.identifier" + same_id + r"\)", body)
+    def same_id(x):
+        """`<x>.value == <parameter>.identifier()`, operands in either order"""
+        return r"(?:" + x + r"\.value\s*==\s*" + par + r"\.identifier\(\)|" + par + r"\.identifier\(\)\s*==\s*" + x + r"\.value)"
+    params = re.search(com + r"\s*\.\s*params\s*\.\s*iter\(\)\s*\.find\(\|(\w+)\|\s*" + same_id(r"\1\.identifier") + r"\)", body)
     if not params:
         raise ExtractionError(T, rel, "get_doc_comment_for_parameter: the `@param` lookup by identifier is gone")
     head = com + r"\s*\.\s*returns\s*\.\s*iter\(\)\s*\.find\(\|(\w+)\|\s*"
-    some_arm, none_arm = r"Some\((\w+)\)\s*=>\s*\2" + same_id, r"None\s*=>\s*(\w+)"
+    # "the operation has exactly one return member": a local bound to that test, or the test itself where it is needed
+    one_member = op + r"\.return_members\(\)\.len\(\)\s*==\s*1"
+    dflt = r"(?P<d>\w+|" + one_member + r")"
     returns = None
-    for pat, grp in ((head + r"match\s*&?\s*\1\.identifier(?:\.as_ref\(\))?\s*\{\s*" + some_arm + r"\s*,\s*" + none_arm + r"\s*,?\s*\}\)", 3),
-                     (head + r"match\s*&?\s*\1\.identifier(?:\.as_ref\(\))?\s*\{\s*None\s*=>\s*(?P<d>\w+)\s*,\s*Some\((?P<i>\w+)\)\s*=>\s*(?P=i)" + same_id + r"\s*,?\s*\}\)", "d"),
-                     (head + r"\1\.identifier\.as_ref\(\)\.map_or\(\s*(?P<d>\w+)\s*,\s*\|(?P<i>\w+)\|\s*(?P=i)" + same_id + r"\s*\)\s*\)", "d")):
+    for pat in (head + r"match\s*&?\s*\1\.identifier(?:\.as_ref\(\))?\s*\{\s*Some\((?P<i>\w+)\)\s*=>\s*" + same_id(r"(?P=i)") + r"\s*,\s*None\s*=>\s*" + dflt + r"\s*,?\s*\}\)",
+                head + r"match\s*&?\s*\1\.identifier(?:\.as_ref\(\))?\s*\{\s*None\s*=>\s*" + dflt + r"\s*,\s*Some\((?P<i>\w+)\)\s*=>\s*" + same_id(r"(?P=i)") + r"\s*,?\s*\}\)",
+                head + r"\1\.identifier\.as_ref\(\)\.map_or\(\s*" + dflt + r"\s*,\s*\|(?P<i>\w+)\|\s*" + same_id(r"(?P=i)") + r"\s*\)\s*\)"):
         mm = re.search(pat, body)
         if mm:
-            returns = mm.group(grp)
+            returns = mm.group("d")
             break
-    single = re.search(r"let\s+(\w+)\s*=\s*" + op + r"\.return_members\(\)\.len\(\)\s*==\s*1\s*;", body)
+    single = re.search(r"let\s+(\w+)\s*=\s*" + one_member + r"\s*;", body)
+    single_ok = returns is not None and ((single and returns == single.group(1)) or (not re.fullmatch(r"\w+", returns)))
     branch = flag_name and re.search(r"let\s+\w+\s*=\s*if\s+" + re.escape(flag_name) + r"\s*\{", body)
     calls = (re.search(r"\.parameters\(\)[^;]*?self\.convert_parameter\(\w+\s*,\s*false\)", conv, re.S),
              re.search(r"\.return_members\(\)[^;]*?self\.convert_parameter\(\w+\s*,\s*true\)", conv, re.S))
-    if returns and single and branch and all(calls) and returns == single.group(1):
+    if returns and single_ok and branch and all(calls):
         flag = True
     elif not returns and not re.search(r"\.\s*returns\b", body) and flag_name is None:
         flag = False
